@@ -74,6 +74,7 @@ func runC19(r *Run) {
 			tables: map[string]map[string]string{"freeze-rollout": {frozenK: tr}, "unfreeze-rollout": {frozenK: fa}}},
 	}
 	runFns := map[*ssa.Function]bool{}
+	runReach := map[*ssa.Function]bool{} // the run methods and the helpers they call
 	var failCond *c19CondWrite
 	for _, c := range cmds {
 		run := r.Prog.declaredMethod(c.pkg, c.typ, "run")
@@ -82,6 +83,9 @@ func runC19(r *Run) {
 			continue
 		}
 		runFns[run] = true
+		for f := range r.Prog.reachableFuncs(run) {
+			runReach[f] = true
+		}
 		if cw := c19Command(r, c, run); cw != nil {
 			failCond = cw
 		}
@@ -99,7 +103,7 @@ func runC19(r *Run) {
 	}
 	extra := 0
 	for _, e := range effectsOf(plugin) {
-		if isWriteVerb(e.Verb) && !runFns[e.Fn] {
+		if isWriteVerb(e.Verb) && !runReach[e.Fn] {
 			extra++
 			r.Check("C19.R1", "write outside the documented commands: "+e.String(), r.Prog.Pos(e.Call.Pos()), shortFunc(e.Fn), "kubectl-eds writes to the API only in the run methods of the pause/validate/fail/freeze commands", false, e.String())
 		}
@@ -120,155 +124,6 @@ type c19CondWrite struct {
 	typ, status string
 }
 
-func c19Command(r *Run, c *c19Cmd, run *ssa.Function) *c19CondWrite {
-	fnName := shortFunc(run)
-	pos := r.Prog.Pos(run.Pos())
-	reach := r.Prog.reachableFuncs(run)
-	effs := effectsOf(reach)
-	var writes, gets []*Effect
-	for _, e := range effs {
-		if isWriteVerb(e.Verb) {
-			writes = append(writes, e)
-		} else if e.Verb == "Get" {
-			gets = append(gets, e)
-		}
-	}
-	// R1
-	var w *Effect
-	for _, e := range writes {
-		if e.String() == c.write && w == nil {
-			w = e
-			continue
-		}
-		r.Check("C19.R1", c.label+": undocumented write "+e.String(), r.Prog.Pos(e.Call.Pos()), shortFunc(e.Fn), "the command performs exactly one write: "+c.write, false, "found "+e.String())
-	}
-	if w == nil {
-		if len(writes) != 1 {
-			r.Check("C19.R1", c.label+": write", pos, fnName, "the command performs exactly one write: "+c.write, false, fmt.Sprintf("%d write site(s), none is %s", len(writes), c.write))
-			return nil
-		}
-		w = writes[0] // reported above as an additional write; the other rules are still evaluated on it
-	} else {
-		loop := inAnyLoop(w.Fn, w.Call.Block())
-		r.Check("C19.R1", c.label+": write", r.Prog.Pos(w.Call.Pos()), shortFunc(w.Fn), "the command performs exactly one write: "+c.write+", once", !loop && w.Fn == run, fmt.Sprintf("in a loop=%v; in the run method=%v", loop, w.Fn == run))
-	}
-	if w.Fn != run {
-		return nil
-	}
-	wcall, _ := w.Call.(*ssa.Call)
-	if wcall == nil {
-		r.Undecided("C19.R2", c.label+": written object", r.Prog.Pos(w.Call.Pos()), fnName, "the write is a go/defer statement")
-		return nil
-	}
-
-	// R2: provenance of the written object
-	O := unwrap(w.Obj)
-	dc, isCall := O.(*ssa.Call)
-	var G ssa.Value
-	if isCall && strings.HasSuffix(calleeName(&dc.Call), ".DeepCopy") && !dc.Call.IsInvoke() && len(dc.Call.Args) == 1 {
-		G = dc.Call.Args[0]
-	}
-	var getG, getEDS *Effect
-	for _, g := range gets {
-		if g.Fn != run {
-			continue
-		}
-		if G != nil && unwrap(g.Obj) == G {
-			getG = g
-		}
-		if shortKind(g.Kind) == "ExtendedDaemonSet" {
-			getEDS = g
-		}
-	}
-	r.Check("C19.R2", c.label+": written object", r.Prog.Pos(w.Call.Pos()), fnName, "the written object is DeepCopy() of the object read by Get in this command", getG != nil, "written object: "+O.String())
-	if getEDS == nil {
-		r.Check("C19.R2", c.label+": read", pos, fnName, "the command reads the targeted ExtendedDaemonSet with Get", false, "no Get(ExtendedDaemonSet)")
-		return nil
-	}
-	E := unwrap(getEDS.Obj) // the ExtendedDaemonSet read
-
-	// R3
-	ff := computeFacts(run)
-	isEO := func(v ssa.Value) bool { return v == E || v == O && (G == E || O == E) }
-	stat := loadOfPath(isEO, "Status", "Canary")
-	wantNil := c.statusCanary == "absent"
-	okS := ff.Holds(wcall.Block(), wantNil, func(v ssa.Value, _ string) bool { return isNilCompareOf(v, stat) })
-	need := "status.canary != nil (an active canary) holds at the write"
-	if wantNil {
-		need = "status.canary == nil (no active canary) holds at the write"
-	}
-	r.Check("C19.R3", c.label+": status.canary precondition", r.Prog.Pos(w.Call.Pos()), fnName, need, okS, "must-facts: "+c19ShortFacts(ff.At(wcall.Block())))
-	if c.specCanary {
-		spec := loadOfPath(isEO, "Spec", "Strategy", "Canary")
-		okC := ff.Holds(wcall.Block(), false, func(v ssa.Value, _ string) bool { return isNilCompareOf(v, spec) })
-		r.Check("C19.R3", c.label+": spec.strategy.canary precondition", r.Prog.Pos(w.Call.Pos()), fnName, "spec.strategy.canary != nil holds at the write", okC, "must-facts: "+c19ShortFacts(ff.At(wcall.Block())))
-	}
-
-	if getG == nil {
-		return nil
-	}
-	recv := run.Params[0]
-
-	// Get keys
-	nsField := c19KeyCheck(r, c, run, getEDS, recv, nil, "")
-	if getG != getEDS {
-		c19KeyCheck(r, c, run, getG, recv, E, nsField)
-	}
-
-	// the objects read are never modified and do not escape
-	readObjs := []*Effect{getEDS}
-	if getG != getEDS {
-		readObjs = append(readObjs, getG)
-	}
-	for _, g := range readObjs {
-		g := g
-		obj := unwrap(g.Obj)
-		ok, why := readOnlyValue(obj, func(ci ssa.CallInstruction, _ ssa.Value) bool {
-			if ci == g.Call {
-				return true
-			}
-			n := calleeName(ci.Common())
-			return n == pkgClient+".MergeFrom" || strings.HasSuffix(n, ".DeepCopy") && !ci.Common().IsInvoke()
-		}, 0)
-		r.Check("C19.R2", c.label+": object read ("+shortKind(g.Kind)+") is not modified", r.Prog.Pos(g.Call.Pos()), fnName, "the object returned by Get is only read (it is the patch base / the source of the copy)", ok, why)
-	}
-
-	// patch base
-	if w.Verb == "Patch" {
-		args := wcall.Call.Args
-		ok := false
-		detail := "no patch argument"
-		if len(args) >= 3 {
-			detail = args[2].String()
-			if pc, isC := args[2].(*ssa.Call); isC && calleeName(&pc.Call) == pkgClient+".MergeFrom" && len(pc.Call.Args) == 1 && unwrap(pc.Call.Args[0]) == G {
-				ok = true
-				detail = "client.MergeFrom(object read)"
-			}
-		}
-		r.Check("C19.R2", c.label+": patch base", r.Prog.Pos(w.Call.Pos()), fnName, "the patch is the merge difference from the object read (only the changed annotations are sent)", ok, detail)
-	}
-
-	// modifications of the copy
-	mods := c19CopyMods(r, c, run, O, wcall)
-	var cw *c19CondWrite
-	if c.cond {
-		cw = c19ConditionAppend(r, c, run, O, wcall, mods)
-	} else {
-		c19Tables(r, c, run, G, O, wcall, mods)
-	}
-	if c.statusCanary == "present" {
-		var getCalls []ssa.Value
-		for _, g := range gets {
-			if cv := callValue(g.Call); cv != nil && g.Fn == run {
-				getCalls = append(getCalls, cv)
-			}
-		}
-		c19Refusals(r, c, run, E, G, O, wcall, getCalls)
-	}
-
-	return cw
-}
-
 func c19ShortFacts(s factSet) string {
 	str := strings.ReplaceAll(s.String(), repoMod+"/", "")
 	if len(str) > 400 {
@@ -277,335 +132,13 @@ func c19ShortFacts(s factSet) string {
 	return str
 }
 
-// c19KeyCheck checks the key of a Get: namespace/name from two receiver fields (the user's
-// input) or, for the replica set of fail, name = status.canary.replicaSet of the ExtendedDaemonSet
-// read and the same namespace field. Returns the receiver field used as namespace.
-func c19KeyCheck(r *Run, c *c19Cmd, run *ssa.Function, g *Effect, recv *ssa.Parameter, eds ssa.Value, nsField string) string {
-	pos := r.Prog.Pos(g.Call.Pos())
-	fnName := shortFunc(run)
-	construct := c.label + ": key of Get(" + shortKind(g.Kind) + ")"
-	key := g.Call.Common().Args[1]
-	u, ok := key.(*ssa.UnOp)
-	if !ok || u.Op != token.MUL {
-		r.Undecided("C19.R2", construct, pos, fnName, "key is not a composite literal")
-		return ""
-	}
-	recvField := func(vals []ssa.Value) string {
-		if len(vals) != 1 {
-			return ""
-		}
-		root, p := accessPath(vals[0])
-		if root == ssa.Value(recv) && len(p) == 1 {
-			return p[0]
-		}
-		return ""
-	}
-	ns := recvField(fieldStores(u.X, "Namespace"))
-	names := fieldStores(u.X, "Name")
-	if eds == nil {
-		name := recvField(names)
-		r.Check("C19.R2", construct, pos, fnName, "the targeted object is read with the namespace and name given by the user (two fields of the options)", ns != "" && name != "" && ns != name, fmt.Sprintf("namespace from field %q, name from field %q", ns, name))
-		return ns
-	}
-	okName := false
-	if len(names) == 1 {
-		root, p := accessPath(names[0])
-		okName = root == eds && len(p) == 3 && p[0] == "Status" && p[1] == "Canary" && p[2] == "ReplicaSet"
-	}
-	r.Check("C19.R2", construct, pos, fnName, "the replica set read is the one named by status.canary.replicaSet of the ExtendedDaemonSet read, in the same namespace", okName && ns != "" && ns == nsField, fmt.Sprintf("namespace from field %q (ExtendedDaemonSet: %q), name is the canary replica set=%v", ns, nsField, okName))
-	return ns
-}
-
 type c19Mods struct {
 	updates  []*ssa.MapUpdate // annotation writes on the copy
 	condSets []*ssa.Store     // stores to Status.Conditions
 	bad      bool
 }
 
-// c19CopyMods walks every use of the copy and classifies the modifications.
-func c19CopyMods(r *Run, c *c19Cmd, run *ssa.Function, O ssa.Value, wcall *ssa.Call) *c19Mods {
-	m := &c19Mods{}
-	fnName := shortFunc(run)
-	construct := c.label + ": modification of the copy"
-	bad := func(in ssa.Instruction, what string, more ...string) {
-		m.bad = true
-		detail := what
-		if len(more) > 0 {
-			detail += " " + strings.Join(more, " ")
-		}
-		r.Check("C19.R2", construct+": "+what, r.Prog.Pos(instrPos(in)), fnName, "between DeepCopy and the write the copy is changed only in the documented annotations"+map[bool]string{true: " / by one appended condition", false: ""}[c.cond], false, detail)
-	}
-	isAnn := func(p []string) bool {
-		return len(p) >= 1 && p[len(p)-1] == "Annotations" && (len(p) == 1 || len(p) == 2 && p[0] == "ObjectMeta")
-	}
-	isCond := func(p []string) bool { return c.cond && len(p) == 2 && p[0] == "Status" && p[1] == "Conditions" }
-	var walk func(v ssa.Value, path []string, depth int)
-	loaded := func(ld *ssa.UnOp, path []string) {
-		switch {
-		case isAnn(path):
-			for _, rr := range refs(ld) {
-				switch x := rr.(type) {
-				case *ssa.DebugRef, *ssa.BinOp, *ssa.Range:
-				case *ssa.Lookup:
-					if x.X != ssa.Value(ld) {
-						bad(x, "annotation map used as a key")
-					}
-				case *ssa.MapUpdate:
-					if x.Map == ssa.Value(ld) {
-						m.updates = append(m.updates, x)
-					} else {
-						bad(x, "annotation map stored into another map")
-					}
-				case ssa.CallInstruction:
-					if b, isB := x.Common().Value.(*ssa.Builtin); isB && b.Name() == "len" {
-						continue
-					}
-					if b, isB := x.Common().Value.(*ssa.Builtin); isB && b.Name() == "delete" {
-						k := "?"
-						if s, okc := constString(x.Common().Args[1]); okc {
-							k = s
-						}
-						bad(x, "annotation "+k+" is deleted")
-						continue
-					}
-					bad(x, "annotation map passed to a call", calleeName(x.Common()))
-				default:
-					bad(rr, "annotation map used in an unexpected way", rr.String())
-				}
-			}
-		case isCond(path):
-			for _, rr := range refs(ld) {
-				if ci, isC := rr.(*ssa.Call); isC {
-					if b, isB := ci.Call.Value.(*ssa.Builtin); isB && (b.Name() == "append" && ci.Call.Args[0] == ssa.Value(ld) || b.Name() == "len") {
-						continue
-					}
-				}
-				if _, isD := rr.(*ssa.DebugRef); isD {
-					continue
-				}
-				bad(rr, "Status.Conditions of the copy used in an unexpected way", rr.String())
-			}
-		default:
-			if isRefType(ld.Type()) {
-				if ok, why := readOnlyValue(ld, nil, 0); !ok {
-					bad(ld, strings.Join(path, ".")+" of the copy: "+why)
-				}
-			} else if ok, why := readOnlyValue(ld, nil, 0); !ok {
-				_ = why // scalar copies cannot modify the object
-			}
-		}
-	}
-	walk = func(v ssa.Value, path []string, depth int) {
-		if depth > 8 {
-			return
-		}
-		for _, rr := range refs(v) {
-			switch x := rr.(type) {
-			case *ssa.DebugRef:
-			case *ssa.FieldAddr:
-				if x.X == v {
-					walk(x, append(append([]string{}, path...), fieldName(x)), depth+1)
-				}
-			case *ssa.UnOp:
-				if x.Op == token.MUL {
-					loaded(x, path)
-				}
-			case *ssa.Store:
-				if x.Addr != v {
-					bad(x, "address of "+strings.Join(path, ".")+" of the copy is stored")
-					continue
-				}
-				switch {
-				case isAnn(path):
-					mm, isMM := x.Val.(*ssa.MakeMap)
-					if !isMM {
-						bad(x, "annotation map replaced by a value that is not a new map", x.Val.String())
-						continue
-					}
-					for _, r2 := range refs(mm) {
-						switch y := r2.(type) {
-						case *ssa.DebugRef, *ssa.Lookup:
-						case *ssa.Store:
-							if y != x {
-								bad(y, "the new annotation map is also stored elsewhere")
-							}
-						case *ssa.MapUpdate:
-							if y.Map == ssa.Value(mm) {
-								m.updates = append(m.updates, y)
-							} else {
-								bad(y, "the new annotation map is stored into another map")
-							}
-						default:
-							bad(r2, "the new annotation map is used in an unexpected way", r2.String())
-						}
-					}
-				case isCond(path):
-					m.condSets = append(m.condSets, x)
-				default:
-					bad(x, "store into "+strings.Join(path, ".")+" of the copy")
-				}
-			case *ssa.MakeInterface:
-				for _, r2 := range refs(x) {
-					if r2 == ssa.Instruction(wcall) {
-						continue
-					}
-					if _, isD := r2.(*ssa.DebugRef); isD {
-						continue
-					}
-					bad(r2, "the copy is handed to another call", r2.String())
-				}
-			case *ssa.IndexAddr:
-				bad(x, "element of "+strings.Join(path, ".")+" of the copy addressed")
-			case ssa.CallInstruction:
-				bad(x, "the copy ("+strings.Join(path, ".")+") is passed to a call", calleeName(x.Common()))
-			default:
-				bad(rr, "the copy is used in an unexpected way", rr.String())
-			}
-		}
-	}
-	walk(O, nil, 0)
-	if !m.bad {
-		r.Check("C19.R2", construct, r.Prog.Pos(instrPos(wcall)), fnName, "between DeepCopy and the write the copy is changed only in the documented annotations"+map[bool]string{true: " / by one appended condition", false: ""}[c.cond], true,
-			fmt.Sprintf("%d annotation write(s), %d condition store(s)", len(m.updates), len(m.condSets)))
-	}
-	return m
-}
-
 type c19Mode struct{ field, val string }
-
-// c19Bindings maps the command word (first word of cobra.Command.Use) to the mode the options
-// constructor stores: word -> (field, constant).
-func c19Bindings(r *Run, c *c19Cmd) (map[string]c19Mode, string) {
-	out := map[string]c19Mode{}
-	named := r.Prog.Named(c.pkg, c.typ)
-	if named == nil {
-		return out, "options type not found"
-	}
-	isOpt := func(t types.Type) bool {
-		p, ok := t.(*types.Pointer)
-		return ok && types.Identical(p.Elem(), named)
-	}
-	// constructors: functions returning *typ that store a parameter into a field of a new typ
-	type ctorInfo struct{ field map[int]string }
-	ctors := map[*ssa.Function]*ctorInfo{}
-	modeFields := map[string]bool{}
-	var pkgFns []*ssa.Function
-	for _, fn := range r.Prog.RepoFuncs() {
-		root := fn
-		for root.Parent() != nil {
-			root = root.Parent()
-		}
-		if root.Pkg != nil && root.Pkg.Pkg.Path() == c.pkg {
-			pkgFns = append(pkgFns, fn)
-		}
-	}
-	for _, fn := range pkgFns {
-		res := fn.Signature.Results()
-		if res.Len() != 1 || !isOpt(res.At(0).Type()) {
-			continue
-		}
-		ci := &ctorInfo{field: map[int]string{}}
-		for _, b := range fn.Blocks {
-			for _, in := range b.Instrs {
-				st, ok := in.(*ssa.Store)
-				if !ok {
-					continue
-				}
-				fa, ok := st.Addr.(*ssa.FieldAddr)
-				par, isPar := st.Val.(*ssa.Parameter)
-				if !ok || !isPar || !isOpt(fa.X.Type()) {
-					continue
-				}
-				switch par.Type().Underlying().(type) {
-				case *types.Basic:
-					ci.field[paramIndex(par)] = fieldName(fa)
-					modeFields[fieldName(fa)] = true
-				}
-			}
-		}
-		if len(ci.field) > 0 {
-			ctors[fn] = ci
-		}
-	}
-	useWord := func(fn *ssa.Function) string {
-		word := ""
-		for _, b := range fn.Blocks {
-			for _, in := range b.Instrs {
-				if st, ok := in.(*ssa.Store); ok {
-					if fa, isFA := st.Addr.(*ssa.FieldAddr); isFA && fieldName(fa) == "Use" && typeName(fa.X.Type()) == "github.com/spf13/cobra.Command" {
-						if s, isC := constString(st.Val); isC {
-							word = firstWord(s)
-						}
-					}
-				}
-			}
-		}
-		return word
-	}
-	// options built inline next to the cobra command: constant stores into basic-typed fields
-	for _, fn := range pkgFns {
-		word := useWord(fn)
-		if word == "" {
-			continue
-		}
-		for _, b := range fn.Blocks {
-			for _, in := range b.Instrs {
-				st, ok := in.(*ssa.Store)
-				if !ok {
-					continue
-				}
-				fa, isFA := st.Addr.(*ssa.FieldAddr)
-				if !isFA || !isOpt(fa.X.Type()) {
-					continue
-				}
-				if bv, isB := constBool(st.Val); isB {
-					out[word] = c19Mode{fieldName(fa), fmt.Sprint(bv)}
-					modeFields[fieldName(fa)] = true
-				} else if sv, isS := constString(st.Val); isS {
-					out[word] = c19Mode{fieldName(fa), sv}
-					modeFields[fieldName(fa)] = true
-				}
-			}
-		}
-	}
-	// the mode fields are written nowhere else
-	for _, fn := range pkgFns {
-		if ctors[fn] != nil || useWord(fn) != "" {
-			continue
-		}
-		for _, b := range fn.Blocks {
-			for _, in := range b.Instrs {
-				if st, ok := in.(*ssa.Store); ok {
-					if fa, isFA := st.Addr.(*ssa.FieldAddr); isFA && isOpt(fa.X.Type()) && modeFields[fieldName(fa)] {
-						return out, "mode field " + fieldName(fa) + " is also written in " + shortFunc(fn)
-					}
-				}
-			}
-		}
-	}
-	for _, fn := range pkgFns {
-		word := useWord(fn)
-		if word == "" {
-			continue
-		}
-		for _, ci := range callsIn(fn) {
-			cal := staticCallee(ci.Common())
-			info := ctors[cal]
-			if info == nil {
-				continue
-			}
-			for idx, f := range info.field {
-				a := ci.Common().Args[idx]
-				if b, ok := constBool(a); ok {
-					out[word] = c19Mode{f, fmt.Sprint(b)}
-				} else if s, ok := constString(a); ok {
-					out[word] = c19Mode{f, s}
-				}
-			}
-		}
-	}
-	return out, ""
-}
 
 func c19TableString(t map[string]string) string {
 	var ks []string
@@ -634,273 +167,6 @@ func c19SameTable(a, b map[string]string) bool {
 		}
 	}
 	return true
-}
-
-// c19Tables: on every path to the write, the final set of annotation writes is a documented
-// table, bound to the command word through the mode field.
-func c19Tables(r *Run, c *c19Cmd, run *ssa.Function, G, O ssa.Value, wcall *ssa.Call, mods *c19Mods) {
-	fnName := shortFunc(run)
-	recv := run.Params[0]
-	k := newKeyer(run)
-	wb := wcall.Block()
-	paths, ok := enumPaths(run, k, run.Blocks[0], func(b *ssa.BasicBlock) bool { return b == wb }, func(b *ssa.BasicBlock) bool { return b == wb }, 20000)
-	r.paths += len(paths)
-	if !ok {
-		r.Undecided("C19.R2", c.label+": annotation table", r.Prog.Pos(run.Pos()), fnName, "path cap exceeded")
-		return
-	}
-	bind, berr := c19Bindings(r, c)
-	isUpd := map[ssa.Instruction]bool{}
-	for _, u := range mods.updates {
-		isUpd[u] = true
-	}
-	type agg struct {
-		ok     bool
-		detail string
-		need   string
-		pos    token.Pos
-		triv   bool
-	}
-	res := map[string]*agg{}
-	var order []string
-	for _, p := range paths {
-		delta := map[string]string{}
-		var lastU ssa.Instruction
-		for bi, b := range p.Blocks {
-			for _, in := range b.Instrs {
-				if bi == len(p.Blocks)-1 && in == ssa.Instruction(wcall) {
-					break
-				}
-				u, isU := in.(*ssa.MapUpdate)
-				if !isU || !isUpd[in] {
-					continue
-				}
-				lastU = in
-				key, isC := constString(u.Key)
-				if !isC {
-					key = "<dynamic key " + u.Key.String() + ">"
-				}
-				if s, isS := constString(u.Value); isS {
-					delta[key] = s
-				} else if root, pth := accessPath(u.Value); (root == G || root == O) && len(pth) == 3 && pth[0] == "Status" && pth[1] == "Canary" && pth[2] == "ReplicaSet" {
-					delta[key] = c19CanaryRS
-				} else {
-					delta[key] = "<" + pathString(u.Value) + ">"
-				}
-			}
-		}
-		// mode facts
-		modes := map[c19Mode]bool{}
-		for _, br := range pathBranches(p) {
-			cond, pol := stripNot(br.Cond, br.Pol)
-			if ld, isLd := cond.(*ssa.UnOp); isLd && ld.Op == token.MUL {
-				if root, pth := accessPath(ld); root == ssa.Value(recv) && len(pth) == 1 {
-					modes[c19Mode{pth[0], fmt.Sprint(pol)}] = true
-				}
-				continue
-			}
-			if x, y, equal, isEq := eqTruth(cond, pol); isEq {
-				for _, pr := range [][2]ssa.Value{{x, y}, {y, x}} {
-					root, pth := accessPath(pr[0])
-					if _, isLd := pr[0].(*ssa.UnOp); !isLd || root != ssa.Value(recv) || len(pth) != 1 {
-						continue
-					}
-					if s, isC := constString(pr[1]); isC && equal {
-						modes[c19Mode{pth[0], s}] = true
-					} else if b, isB := constBool(pr[1]); isB {
-						modes[c19Mode{pth[0], fmt.Sprint(b == equal)}] = true
-					}
-				}
-			}
-		}
-		// two different constants for one mode field: the path is infeasible
-		perField := map[string]int{}
-		for m := range modes {
-			perField[m.field]++
-		}
-		infeasible := false
-		for _, n := range perField {
-			if n > 1 {
-				infeasible = true
-			}
-		}
-		if infeasible {
-			continue
-		}
-		var ms []string
-		for m := range modes {
-			ms = append(ms, m.field+"="+m.val)
-		}
-		sort.Strings(ms)
-		construct := c.label + ": annotations written on paths with [" + strings.Join(ms, " ") + "] " + c19TableString(delta)
-		a := res[construct]
-		if a == nil {
-			a = &agg{ok: true, pos: wcall.Pos()}
-			if lastU != nil {
-				a.pos = instrPos(lastU)
-			}
-			res[construct] = a
-			order = append(order, construct)
-		}
-		if len(delta) == 0 {
-			a.need = "a path that writes no annotation changes nothing"
-			a.triv = true
-			continue
-		}
-		word := ""
-		var words []string
-		for w, t := range c.tables {
-			words = append(words, w+": "+c19TableString(t))
-			if c19SameTable(t, delta) {
-				word = w
-			}
-		}
-		sort.Strings(words)
-		a.need = "the annotations written are exactly one documented table (" + strings.Join(words, "; ") + ")"
-		if word == "" {
-			a.ok = false
-			a.detail = "writes " + c19TableString(delta) + ", not a documented table"
-			continue
-		}
-		if len(c.tables) == 1 {
-			a.detail = "table of `" + word + "`"
-			continue
-		}
-		a.need += " and it is the table of the command word whose constructor sets the mode tested on the path"
-		b, has := bind[word]
-		switch {
-		case berr != "":
-			a.ok, a.detail = false, "undecided: "+berr
-		case !has:
-			a.ok, a.detail = false, "undecided: no cobra command with Use word `"+word+"` constructs the options with a constant mode"
-		case !modes[b]:
-			a.ok, a.detail = false, fmt.Sprintf("the table of `%s` is written on a path where %s=%s (the mode the `%s` command is built with) is not established; path modes: [%s]", word, b.field, b.val, word, strings.Join(ms, " "))
-		default:
-			a.detail = fmt.Sprintf("table of `%s`, bound by %s=%s", word, b.field, b.val)
-		}
-	}
-	sort.Strings(order)
-	for _, cst := range order {
-		a := res[cst]
-		o := r.Check("C19.R2", cst, r.Prog.Pos(a.pos), fnName, a.need, a.ok, a.detail)
-		o.Trivial = a.triv
-	}
-	// every documented table is written on some path
-	anyBad := false
-	for _, a := range res {
-		if !a.ok {
-			anyBad = true
-		}
-	}
-	for w, t := range c.tables {
-		if anyBad {
-			break // already reported above
-		}
-		found := false
-		for cst, a := range res {
-			if a.ok && strings.HasSuffix(cst, c19TableString(t)) {
-				found = true
-			}
-		}
-		r.Check("C19.R2", c.label+": table of `"+w+"` is written", r.Prog.Pos(wcall.Pos()), fnName, "the command word `"+w+"` has a path that writes "+c19TableString(t), found, "")
-	}
-}
-
-// c19ConditionAppend: fail appends exactly one condition {type Canary-Failed, status True}.
-func c19ConditionAppend(r *Run, c *c19Cmd, run *ssa.Function, O ssa.Value, wcall *ssa.Call, mods *c19Mods) *c19CondWrite {
-	fnName := shortFunc(run)
-	pos := r.Prog.Pos(wcall.Pos())
-	construct := c.label + ": appended condition"
-	if len(mods.updates) > 0 {
-		r.Check("C19.R2", c.label+": no annotation write", r.Prog.Pos(instrPos(mods.updates[0])), fnName, "fail changes only the replica set's conditions", false, "annotation written on the replica set copy")
-	}
-	if len(mods.condSets) != 1 {
-		r.Check("C19.R2", construct, pos, fnName, "exactly one store to Status.Conditions of the copy: append(conditions, failed condition)", false, fmt.Sprintf("%d stores", len(mods.condSets)))
-		return nil
-	}
-	st := mods.condSets[0]
-	dom := st.Block() == wcall.Block() && instrIndex(st) < instrIndex(wcall) || st.Block() != wcall.Block() && st.Block().Dominates(wcall.Block())
-	ap, isAp := st.Val.(*ssa.Call)
-	okShape := false
-	var elems []ssa.Value
-	if isAp {
-		if b, isB := ap.Call.Value.(*ssa.Builtin); isB && b.Name() == "append" && len(ap.Call.Args) == 2 {
-			base, bp := accessPath(ap.Call.Args[0])
-			var complete bool
-			elems, complete = varargElems(ap.Call.Args[1])
-			okShape = base == O && len(bp) == 2 && bp[0] == "Status" && bp[1] == "Conditions" && complete && len(elems) == 1
-		}
-	}
-	if !okShape || !dom || inAnyLoop(run, st.Block()) {
-		r.Check("C19.R2", construct, r.Prog.Pos(instrPos(st)), fnName, "Status.Conditions of the copy = append(its own conditions, one condition), once, before the write", false, fmt.Sprintf("shape ok=%v dominates write=%v", okShape, dom))
-		return nil
-	}
-	// the element: a struct built by a repository constructor; resolve its Type and Status
-	el := elems[0]
-	typV, statV, why := c19CondFields(r, el)
-	if why != "" {
-		r.Undecided("C19.R2", construct, r.Prog.Pos(instrPos(st)), fnName, why)
-		return nil
-	}
-	wantT, _ := r.Prog.constStr(pkgAPI, "ConditionTypeCanaryFailed")
-	wantS, _ := r.Prog.constStr(pkgCoreV1, "ConditionTrue")
-	gotT, okT := constString(typV)
-	gotS, okS := c19StatusConst(r, statV)
-	r.Check("C19.R2", construct, r.Prog.Pos(instrPos(st)), fnName, fmt.Sprintf("the appended condition has type %q and status %q", wantT, wantS), okT && okS && gotT == wantT && gotS == wantS,
-		fmt.Sprintf("type=%q (const=%v) status=%q (decided=%v)", gotT, okT, gotS, okS))
-	if okT && okS {
-		return &c19CondWrite{typ: gotT, status: gotS}
-	}
-	return nil
-}
-
-// c19CondFields resolves the Type and Status of a condition value: either a local composite
-// literal, or the result of a repository constructor that stores its parameters in those fields.
-func c19CondFields(r *Run, el ssa.Value) (typ, status ssa.Value, why string) {
-	fromAlloc := func(a ssa.Value) (t, s ssa.Value) {
-		ts, ss := fieldStores(a, "Type"), fieldStores(a, "Status")
-		if len(ts) == 1 && len(ss) == 1 {
-			return ts[0], ss[0]
-		}
-		return nil, nil
-	}
-	switch x := el.(type) {
-	case *ssa.UnOp:
-		if x.Op == token.MUL {
-			if t, s := fromAlloc(x.X); t != nil {
-				return t, s, ""
-			}
-		}
-	case *ssa.Call:
-		cal := staticCallee(&x.Call)
-		if cal == nil || !r.Prog.IsRuleSite(cal) {
-			return nil, nil, "the appended condition is built by a function outside the repository"
-		}
-		var t, s ssa.Value
-		n := 0
-		for _, b := range cal.Blocks {
-			ret := returnOf(b)
-			if ret == nil {
-				continue
-			}
-			n++
-			ld, ok := ret.Results[0].(*ssa.UnOp)
-			if !ok || ld.Op != token.MUL {
-				return nil, nil, "condition constructor does not return a composite literal"
-			}
-			t, s = fromAlloc(ld.X)
-		}
-		if n != 1 || t == nil {
-			return nil, nil, "condition constructor is not a single composite literal with Type and Status"
-		}
-		tp, ok1 := t.(*ssa.Parameter)
-		sp, ok2 := s.(*ssa.Parameter)
-		if !ok1 || !ok2 {
-			return nil, nil, "condition constructor does not take Type and Status from its parameters"
-		}
-		return x.Call.Args[paramIndex(tp)], x.Call.Args[paramIndex(sp)], ""
-	}
-	return nil, nil, "the appended condition is not a composite literal or a constructor call: " + el.String()
 }
 
 // c19StatusConst evaluates a condition status argument: a constant, or f(const bool) for a
@@ -976,9 +242,23 @@ func c19Wire(r *Run, cmds []*c19Cmd, cw *c19CondWrite) {
 				if !ok {
 					continue
 				}
-				key, isC := constString(lk.Index)
 				mt, isM := lk.X.Type().Underlying().(*types.Map)
-				if !isC || !isM || !types.Identical(mt.Elem(), types.Typ[types.String]) {
+				if !isM || !types.Identical(mt.Elem(), types.Typ[types.String]) {
+					continue
+				}
+				// the key: a constant, or a parameter of a generic annotation reader that its
+				// call sites (reachable from the controllers) instantiate with constants
+				var keys []string
+				if key, isC := constString(lk.Index); isC {
+					keys = append(keys, key)
+				} else if par, isP := unwrap(lk.Index).(*ssa.Parameter); isP {
+					for _, cs := range callSitesOf(fn, reach) {
+						if k2, isC2 := constString(cs.Common().Args[paramIndex(par)]); isC2 {
+							keys = append(keys, k2)
+						}
+					}
+				}
+				if len(keys) == 0 {
 					continue
 				}
 				rd := &c19Reader{fn: fn, consts: map[string]bool{}}
@@ -1009,7 +289,9 @@ func c19Wire(r *Run, cmds []*c19Cmd, cw *c19CondWrite) {
 						}
 					}
 				}
-				readers[key] = append(readers[key], rd)
+				for _, key := range keys {
+					readers[key] = append(readers[key], rd)
+				}
 			}
 		}
 	}
@@ -1113,53 +395,206 @@ func c19ValidateReader(r *Run) {
 	if site == nil {
 		return
 	}
-	if !assignRoles(r, "C19.R5", site) {
-		return
-	}
 	fn := site.decision
-	paths, _, ok := funcPaths(fn, 5000)
+	// Roles of the decision's parameters, read off the decision function itself (with the
+	// same-package helpers it calls expanded): the replica set whose name is compared with the
+	// canary-valid annotation is the one validate promotes; the other replica-set parameter is the
+	// one that is kept. (Which replica sets the caller passes is C05.R4's question.)
+	var ds *ssa.Parameter
+	var ersParams []*ssa.Parameter
+	for _, p := range fn.Params {
+		switch {
+		case isPtrToNamed(p.Type(), pkgAPI, "ExtendedDaemonSet"):
+			ds = p
+		case isPtrToNamed(p.Type(), pkgAPI, "ExtendedDaemonSetReplicaSet"):
+			ersParams = append(ersParams, p)
+		}
+	}
+	paths, ok := enumIPaths(fn, samePkgInliner(r.Prog, fn, nil), 20000)
 	r.paths += len(paths)
 	if !ok {
 		r.Undecided("C19.R5", "validate table", r.Prog.Pos(fn.Pos()), shortFunc(fn), "path cap exceeded")
 		return
 	}
-	utd, act := site.roles["upToDate"], site.roles["active"]
-	n := 0
-	var allNotes []string
+	rootParam := func(c *icall, v ssa.Value) *ssa.Parameter {
+		if p, isP := v.(*ssa.Parameter); isP && c != nil && c.parent == nil {
+			return p
+		}
+		return nil
+	}
+	// X.Name / X.GetName(), X.Annotations / X.GetAnnotations() of a root parameter X
+	metaOf := func(c *icall, v ssa.Value, field, getter string) *ssa.Parameter {
+		cc, vv := ideep(c, v)
+		if call, isCall := vv.(*ssa.Call); isCall && strings.HasSuffix(calleeName(&call.Call), "."+getter) {
+			if call.Call.IsInvoke() {
+				rc, rv := iunwrap(cc, call.Call.Value)
+				return rootParam(rc, rv)
+			}
+			if len(call.Call.Args) == 1 {
+				rc, root, _ := iaccess(cc, call.Call.Args[0])
+				return rootParam(rc, root)
+			}
+			return nil
+		}
+		rc, root, f := iaccess(cc, vv)
+		if len(f) == 0 || f[len(f)-1] != field {
+			return nil
+		}
+		for _, x := range f[:len(f)-1] {
+			if x != "ObjectMeta" {
+				return nil
+			}
+		}
+		return rootParam(rc, root)
+	}
+	// the validated parameter
+	var utd *ssa.Parameter
+	isValidCall := func(c *icall, v ssa.Value) (*ssa.Parameter, bool) {
+		cc, vv := ideep(c, v)
+		call, isCall := vv.(*ssa.Call)
+		if !isCall || calleeName(&call.Call) != pkgEDS+".IsCanaryDeploymentValid" || len(call.Call.Args) != 2 {
+			return nil, false
+		}
+		if ds == nil || metaOf(cc, call.Call.Args[0], "Annotations", "GetAnnotations") != ds {
+			return nil, false
+		}
+		p := metaOf(cc, call.Call.Args[1], "Name", "GetName")
+		return p, p != nil
+	}
 	for _, p := range paths {
-		var notes []string
-		a := c05Classify(site, p, &notes)
-		allNotes = append(allNotes, notes...)
+		for _, ev := range p.events {
+			if call, isCall := ev.in.(*ssa.Call); isCall {
+				if q, ok := isValidCall(ev.c, call); ok {
+					for _, e := range ersParams {
+						if e == q {
+							utd = q
+						}
+					}
+				}
+			}
+		}
+	}
+	var act *ssa.Parameter
+	for _, e := range ersParams {
+		if e != utd {
+			act = e
+		}
+	}
+	rolesOK := ds != nil && utd != nil && act != nil && len(ersParams) == 2
+	r.Check("C19.R5", "roles of the decision's parameters", r.Prog.Pos(fn.Pos()), shortFunc(fn),
+		"the decision takes the ExtendedDaemonSet, the replica set whose name is compared with the canary-valid annotation of that ExtendedDaemonSet, and one other replica set", rolesOK,
+		fmt.Sprintf("%d replica-set parameters; validated parameter found=%v", len(ersParams), utd != nil))
+	if !rolesOK {
+		return
+	}
+	type atoms struct{ eqActive, activeNil, noCanary, valid *bool }
+	describe := func(a atoms) string {
+		var out []string
+		add := func(n string, b *bool) {
+			if b != nil {
+				out = append(out, fmt.Sprintf("%s=%v", n, *b))
+			}
+		}
+		add("active==upToDate", a.eqActive)
+		add("active==nil", a.activeNil)
+		add("noCanary", a.noCanary)
+		add("valid", a.valid)
+		return strings.Join(out, " ")
+	}
+	type agg struct {
+		ok     bool
+		need   string
+		detail string
+		pos    token.Pos
+	}
+	res := map[string]*agg{}
+	var order []string
+	n := 0
+	for _, p := range paths {
+		var a atoms
+		for _, br := range p.branches {
+			bc, bv, pol := ibool(br)
+			if q, ok := isValidCall(bc, bv); ok && q == utd {
+				a.valid = bptr(pol)
+				continue
+			}
+			c, l, rgt, equal, isEq := ieq(br)
+			if !isEq {
+				continue
+			}
+			lc, lv := ideep(c, l)
+			rc, rv := ideep(c, rgt)
+			lp, rp := rootParam(lc, lv), rootParam(rc, rv)
+			switch {
+			case lp != nil && rp != nil && (lp == act && rp == utd || lp == utd && rp == act):
+				a.eqActive = bptr(equal)
+			case isNilConst(lv) && rp == act || isNilConst(rv) && lp == act:
+				a.activeNil = bptr(equal)
+			case isNilConst(lv) || isNilConst(rv):
+				oc, ov := rc, rv
+				if isNilConst(rv) {
+					oc, ov = lc, lv
+				}
+				if xc, root, f := iaccess(oc, ov); rootParam(xc, root) == ds && len(f) == 3 && f[0] == "Spec" && f[1] == "Strategy" && f[2] == "Canary" {
+					a.noCanary = bptr(equal)
+				}
+			}
+		}
+		if p.ret == nil || len(p.ret.Results) == 0 {
+			continue
+		}
+		rc, rv := ideep(p.root, p.ret.Results[0])
+		res0 := rootParam(rc, rv)
+		construct, need, good, detail := "", "", true, ""
 		if !is(a.valid, true) {
 			// a path that keeps the active replica set although a canary is in progress must have
 			// refuted the validation first: otherwise validation is not consulted at all on that path
-			// (e.g. a paused canary short-circuits before IsCanaryDeploymentValid is evaluated)
-			ret0 := returnOf(p.Blocks[len(p.Blocks)-1])
-			res0 := unwrap(p.Resolve(ret0.Results[0]))
-			if res0 == ssa.Value(act) && is(a.eqActive, false) && is(a.activeNil, false) && is(a.noCanary, false) {
-				r.Check("C19.R5", "keeps active on path ["+describeAtoms(a)+"]", r.Prog.Pos(instrPos(ret0)), shortFunc(fn),
-					"the active replica set is kept during a canary only on paths where canary-valid was evaluated and is false", is(a.valid, false),
-					"this path decides not to promote without consulting the canary-valid annotation")
+			if !(res0 == act && is(a.eqActive, false) && is(a.activeNil, false) && is(a.noCanary, false)) {
+				continue
 			}
-			continue
+			construct = "keeps active on path [" + describe(a) + "]"
+			need = "the active replica set is kept during a canary only on paths where canary-valid was evaluated and is false"
+			good = is(a.valid, false)
+			detail = "this path decides not to promote without consulting the canary-valid annotation"
+		} else {
+			n++
+			good = res0 == utd || res0 == act && is(a.eqActive, true)
+			what := "the up-to-date replica set"
+			if !good {
+				what = "the active replica set (the validation is ignored)"
+				if res0 != act {
+					what = rv.String()
+				}
+			}
+			construct = "return on path [" + describe(a) + "]"
+			need = "when the canary-valid annotation names the up-to-date replica set, that replica set becomes the active one whatever the pause/fail/time state"
+			detail = "returns " + what
 		}
-		n++
-		ret := returnOf(p.Blocks[len(p.Blocks)-1])
-		res := unwrap(p.Resolve(ret.Results[0]))
-		good := res == ssa.Value(utd) || res == ssa.Value(act) && is(a.eqActive, true)
-		what := "the up-to-date replica set"
+		ag := res[construct]
+		if ag == nil {
+			ag = &agg{ok: true, need: need, pos: instrPos(p.ret)}
+			res[construct] = ag
+			order = append(order, construct)
+		}
 		if !good {
-			what = "the active replica set (the validation is ignored)"
-			if res != ssa.Value(act) {
-				what = res.String()
-			}
+			ag.ok = false
 		}
-		r.Check("C19.R5", "return on path ["+describeAtoms(a)+"]", r.Prog.Pos(instrPos(ret)), shortFunc(fn),
-			"when the canary-valid annotation names the up-to-date replica set, that replica set becomes the active one whatever the pause/fail/time state", good, "returns "+what)
+		if ag.detail == "" || !good {
+			ag.detail = detail
+		}
+	}
+	sort.Strings(order)
+	for _, cst := range order {
+		a := res[cst]
+		d := a.detail
+		if a.ok && strings.HasPrefix(cst, "keeps active") {
+			d = ""
+		}
+		r.Check("C19.R5", cst, r.Prog.Pos(a.pos), shortFunc(fn), a.need, a.ok, d)
 	}
 	if n == 0 {
 		r.Check("C19.R5", "validate table", r.Prog.Pos(fn.Pos()), shortFunc(fn), "the promotion decision branches on IsCanaryDeploymentValid(daemonset annotations, up-to-date replica set name)", false,
-			"no path carries the fact canary-valid=true; "+strings.Join(allNotes, "; "))
+			"no path carries the fact canary-valid=true")
 	}
 }
 
@@ -1259,89 +694,1201 @@ func c19UnpauseReader(r *Run) {
 // ---------------------------------------------------------------------------------------------
 // R7: refusal table of the canary commands
 
-// c19PathModes reads the mode facts (receiver field = constant) of a path; ok=false when the path
-// carries two different constants for one field (infeasible).
-func c19PathModes(p *Path, recv *ssa.Parameter) (map[c19Mode]bool, bool) {
-	modes := map[c19Mode]bool{}
-	for _, br := range pathBranches(p) {
-		cond, pol := stripNot(br.Cond, br.Pol)
-		if ld, isLd := cond.(*ssa.UnOp); isLd && ld.Op == token.MUL {
-			if root, pth := accessPath(ld); root == ssa.Value(recv) && len(pth) == 1 {
-				modes[c19Mode{pth[0], fmt.Sprint(pol)}] = true
+func c19Uniq(in []string) []string {
+	var out []string
+	for i, x := range in {
+		if i == 0 || x != in[i-1] {
+			out = append(out, x)
+		}
+	}
+	return out
+}
+
+// ---------------------------------------------------------------------------------------------
+// Command analysis on inlined paths (R1, R2, R3, R7). The run method is analysed together with
+// the same-package helpers it calls: the object read, the copy and the branch facts are followed
+// through parameters and results.
+
+type c19Run struct {
+	r      *Run
+	c      *c19Cmd
+	run    *ssa.Function
+	recv   *ssa.Parameter
+	fn     string
+	inl    func(*ssa.Function) bool
+	reach  map[*ssa.Function]bool
+	paths  []*ipath
+	w      *Effect
+	wcall  *ssa.Call
+	gets   map[ssa.Instruction]*Effect
+	bind   map[string]c19Mode
+	bindEr string
+	tables map[*ssa.Global]map[string]ssa.Value
+}
+
+type c19Prov struct {
+	p      *ipath
+	wi     int
+	cw     *icall
+	co     *icall
+	O      ssa.Value
+	cg     *icall
+	G      ssa.Value
+	ce     *icall
+	E      ssa.Value
+	getG   ievent
+	getE   ievent
+	hasG   bool
+	hasE   bool
+	reason string
+}
+
+func sameIV(c1 *icall, v1 ssa.Value, c2 *icall, v2 ssa.Value) bool { return c1 == c2 && v1 == v2 }
+
+func c19Command(r *Run, c *c19Cmd, run *ssa.Function) *c19CondWrite {
+	x := &c19Run{r: r, c: c, run: run, recv: run.Params[0], fn: shortFunc(run), gets: map[ssa.Instruction]*Effect{}, tables: map[*ssa.Global]map[string]ssa.Value{}}
+	pos := r.Prog.Pos(run.Pos())
+	x.reach = r.Prog.reachableFuncs(run)
+	x.inl = samePkgInliner(r.Prog, run, nil)
+	var writes []*Effect
+	for _, e := range effectsOf(x.reach) {
+		if isWriteVerb(e.Verb) {
+			writes = append(writes, e)
+		} else if e.Verb == "Get" {
+			x.gets[e.Call] = e
+		}
+	}
+	// R1
+	var w *Effect
+	for _, e := range writes {
+		if e.String() == c.write && w == nil {
+			w = e
+			continue
+		}
+		r.Check("C19.R1", c.label+": undocumented write "+e.String(), r.Prog.Pos(e.Call.Pos()), shortFunc(e.Fn), "the command performs exactly one write: "+c.write, false, "found "+e.String())
+	}
+	reported := w != nil
+	if w == nil {
+		if len(writes) != 1 {
+			r.Check("C19.R1", c.label+": write", pos, x.fn, "the command performs exactly one write: "+c.write, false, fmt.Sprintf("%d write site(s), none is %s", len(writes), c.write))
+			return nil
+		}
+		w = writes[0] // reported above; the other rules are still evaluated on it
+	}
+	x.w = w
+	x.wcall, _ = w.Call.(*ssa.Call)
+	if x.wcall == nil {
+		r.Undecided("C19.R2", c.label+": written object", r.Prog.Pos(w.Call.Pos()), x.fn, "the write is a go/defer statement")
+		return nil
+	}
+	paths, ok := enumIPaths(run, x.inl, 20000)
+	r.paths += len(paths)
+	if !ok {
+		r.Undecided("C19.R2", c.label+": paths", pos, x.fn, "path cap exceeded")
+		return nil
+	}
+	x.paths = paths
+	var wpaths []*ipath
+	maxW := 0
+	for _, p := range paths {
+		n := 0
+		for _, ev := range p.events {
+			if ev.in == ssa.Instruction(x.wcall) {
+				n++
+			}
+		}
+		if n > 0 {
+			wpaths = append(wpaths, p)
+		}
+		if n > maxW {
+			maxW = n
+		}
+	}
+	if reported {
+		loop := inAnyLoop(w.Fn, w.Call.Block())
+		r.Check("C19.R1", c.label+": write", r.Prog.Pos(w.Call.Pos()), shortFunc(w.Fn), "the command performs exactly one write: "+c.write+", once", !loop && maxW == 1,
+			fmt.Sprintf("in a loop=%v; executions of the write site on one path of run (helpers expanded): at most %d", loop, maxW))
+	}
+	if len(wpaths) == 0 {
+		return nil
+	}
+	x.bind, x.bindEr = c19Bindings(r, c)
+
+	// provenance of the written object on every path to the write
+	var provs []*c19Prov
+	firstBad := ""
+	Ovals, Gvals, Evals := map[ssa.Value]bool{}, map[ssa.Value]bool{}, map[ssa.Value]bool{}
+	noEDS := false
+	for _, p := range wpaths {
+		pv := x.provenance(p)
+		provs = append(provs, pv)
+		if pv.reason != "" && firstBad == "" {
+			firstBad = pv.reason
+		}
+		if !pv.hasE {
+			noEDS = true
+		}
+		if pv.reason == "" {
+			Ovals[pv.O] = true
+			Gvals[pv.G] = true
+		}
+		if pv.hasE {
+			Evals[pv.E] = true
+		}
+	}
+	r.Check("C19.R2", c.label+": written object", r.Prog.Pos(w.Call.Pos()), x.fn, "the written object is DeepCopy() of the object read by Get in this command", firstBad == "", firstBad)
+	if noEDS {
+		r.Check("C19.R2", c.label+": read", pos, x.fn, "the command reads the targeted ExtendedDaemonSet with Get", false, "a path reaches the write without a Get(ExtendedDaemonSet)")
+		return nil
+	}
+	x.preconditions(provs)
+	if firstBad != "" {
+		return nil
+	}
+	x.keys(provs)
+	x.readOnly(Gvals, Evals)
+	if w.Verb == "Patch" {
+		x.patchBase(provs)
+	}
+	mods := x.copyMods(Ovals)
+	var cw *c19CondWrite
+	if c.cond {
+		cw = x.conditionAppend(provs, mods)
+	} else {
+		x.annotationTables(provs, mods)
+	}
+	if c.statusCanary == "present" {
+		x.refusals(provs)
+	}
+	return cw
+}
+
+// provenance resolves, on one path to the write, the copy, the object it was copied from and the
+// ExtendedDaemonSet read.
+func (x *c19Run) provenance(p *ipath) *c19Prov {
+	pv := &c19Prov{p: p, wi: p.eventIndex(x.wcall)}
+	pv.cw = p.events[pv.wi].c
+	pv.co, pv.O = iunwrap(pv.cw, x.w.Obj)
+	for i := 0; i < pv.wi; i++ {
+		ev := p.events[i]
+		g := x.gets[ev.in]
+		if g == nil {
+			continue
+		}
+		co, obj := iunwrap(ev.c, g.Obj)
+		if shortKind(g.Kind) == "ExtendedDaemonSet" {
+			pv.ce, pv.E, pv.getE, pv.hasE = co, obj, ev, true
+		}
+	}
+	dc, isCall := pv.O.(*ssa.Call)
+	if !isCall || !strings.HasSuffix(calleeName(&dc.Call), ".DeepCopy") || dc.Call.IsInvoke() || len(dc.Call.Args) != 1 {
+		pv.reason = "written object: " + pv.O.String()
+		// the object read itself may be written: preconditions are still evaluated against it
+		return pv
+	}
+	pv.cg, pv.G = iunwrap(pv.co, dc.Call.Args[0])
+	di := p.eventIndex(dc)
+	for i := 0; i < pv.wi; i++ {
+		ev := p.events[i]
+		g := x.gets[ev.in]
+		if g == nil {
+			continue
+		}
+		co, obj := iunwrap(ev.c, g.Obj)
+		if sameIV(co, obj, pv.cg, pv.G) && i < di {
+			pv.getG, pv.hasG = ev, true
+		}
+	}
+	if !pv.hasG {
+		pv.reason = "the copied object " + pv.G.String() + " is not the object of a Get executed before the copy"
+	}
+	return pv
+}
+
+func (x *c19Run) isEDSRoot(pv *c19Prov, c *icall, v ssa.Value) bool {
+	if pv.hasE && sameIV(c, v, pv.ce, pv.E) {
+		return true
+	}
+	// the copy (or the written object itself) stands for the object read when it is a copy of it
+	if sameIV(c, v, pv.co, pv.O) && (pv.hasE && (sameIV(pv.cg, pv.G, pv.ce, pv.E) || sameIV(pv.co, pv.O, pv.ce, pv.E))) {
+		return true
+	}
+	return false
+}
+
+// nilFact reports whether the path carries, before event `upto`, a nil test of E.<fields> and its
+// polarity (equal to nil).
+func (x *c19Run) nilFact(pv *c19Prov, upto int, fields ...string) (found, equalNil bool) {
+	for _, br := range pv.p.branches {
+		if upto >= 0 && br.at > upto {
+			continue
+		}
+		c, a, b, equal, ok := ieq(br)
+		if !ok {
+			continue
+		}
+		var other ssa.Value
+		switch {
+		case iisNil(c, a):
+			other = b
+		case iisNil(c, b):
+			other = a
+		default:
+			continue
+		}
+		rc, root, f := iaccess(c, other)
+		if !x.isEDSRoot(pv, rc, root) || len(f) != len(fields) {
+			continue
+		}
+		same := true
+		for i := range f {
+			if f[i] != fields[i] {
+				same = false
+			}
+		}
+		if same {
+			found, equalNil = true, equal
+		}
+	}
+	return
+}
+
+// preconditions: R3 on every path to the write.
+func (x *c19Run) preconditions(provs []*c19Prov) {
+	r, c := x.r, x.c
+	wantNil := c.statusCanary == "absent"
+	okS, okC := true, true
+	for _, pv := range provs {
+		f, eq := x.nilFact(pv, pv.wi, "Status", "Canary")
+		if !f || eq != wantNil {
+			okS = false
+		}
+		if c.specCanary {
+			f, eq := x.nilFact(pv, pv.wi, "Spec", "Strategy", "Canary")
+			if !f || eq {
+				okC = false
+			}
+		}
+	}
+	need := "status.canary != nil (an active canary) holds on every path to the write"
+	if wantNil {
+		need = "status.canary == nil (no active canary) holds on every path to the write"
+	}
+	detail := func(ok bool) string {
+		if ok {
+			return fmt.Sprintf("%d path(s) to the write (helpers expanded)", len(provs))
+		}
+		return "a path reaches the write without this test of the object read"
+	}
+	r.Check("C19.R3", c.label+": status.canary precondition", r.Prog.Pos(x.w.Call.Pos()), x.fn, need, okS, detail(okS))
+	if c.specCanary {
+		r.Check("C19.R3", c.label+": spec.strategy.canary precondition", r.Prog.Pos(x.w.Call.Pos()), x.fn, "spec.strategy.canary != nil holds on every path to the write", okC, detail(okC))
+	}
+}
+
+// recvField: v is a load of a field of the options object the command runs on.
+func (x *c19Run) recvField(c *icall, v ssa.Value) string {
+	cc, vv := iunwrap(c, v)
+	ld, ok := vv.(*ssa.UnOp)
+	if !ok || ld.Op != token.MUL {
+		return ""
+	}
+	rc, root, f := iaccess(cc, ld)
+	if rc != nil && rc.parent == nil && root == ssa.Value(x.recv) && len(f) >= 1 {
+		// fields of embedded option structs are reached through the embedding field
+		return strings.Join(f, ".")
+	}
+	return ""
+}
+
+// keys: the Get keys on every path.
+func (x *c19Run) keys(provs []*c19Prov) {
+	r, c := x.r, x.c
+	type res struct {
+		ok     bool
+		detail string
+		pos    token.Pos
+	}
+	out := map[string]*res{}
+	keyFields := func(ev ievent) (nsC *icall, ns []ssa.Value, nameC *icall, name []ssa.Value, ok bool) {
+		kc, kv := iresolve(ev.c, ev.in.(ssa.CallInstruction).Common().Args[1])
+		u, isU := kv.(*ssa.UnOp)
+		if !isU || u.Op != token.MUL {
+			return nil, nil, nil, nil, false
+		}
+		return kc, fieldStores(u.X, "Namespace"), kc, fieldStores(u.X, "Name"), true
+	}
+	for _, pv := range provs {
+		// the ExtendedDaemonSet
+		cst := c.label + ": key of Get(ExtendedDaemonSet)"
+		if out[cst] == nil {
+			out[cst] = &res{ok: true, pos: pv.getE.in.Pos()}
+		}
+		nsC, ns, nameC, name, ok := keyFields(pv.getE)
+		nsF, nameF := "", ""
+		if ok && len(ns) == 1 && len(name) == 1 {
+			nsF, nameF = x.recvField(nsC, ns[0]), x.recvField(nameC, name[0])
+		}
+		if nsF == "" || nameF == "" || nsF == nameF {
+			out[cst].ok = false
+		}
+		out[cst].detail = fmt.Sprintf("namespace from field %q, name from field %q", nsF, nameF)
+		if sameIV(pv.cg, pv.G, pv.ce, pv.E) {
+			continue
+		}
+		cst2 := c.label + ": key of Get(" + shortKind(x.gets[pv.getG.in].Kind) + ")"
+		if out[cst2] == nil {
+			out[cst2] = &res{ok: true, pos: pv.getG.in.Pos()}
+		}
+		nsC2, ns2, nameC2, name2, ok2 := keyFields(pv.getG)
+		good := false
+		nsF2 := ""
+		if ok2 && len(ns2) == 1 && len(name2) == 1 {
+			nsF2 = x.recvField(nsC2, ns2[0])
+			rc, root, f := iaccess(nameC2, name2[0])
+			good = nsF2 != "" && nsF2 == nsF && sameIV(rc, root, pv.ce, pv.E) && len(f) == 3 && f[0] == "Status" && f[1] == "Canary" && f[2] == "ReplicaSet"
+		}
+		if !good {
+			out[cst2].ok = false
+		}
+		out[cst2].detail = fmt.Sprintf("namespace from field %q (ExtendedDaemonSet: %q), name is status.canary.replicaSet of the ExtendedDaemonSet read=%v", nsF2, nsF, good)
+	}
+	var ks []string
+	for k := range out {
+		ks = append(ks, k)
+	}
+	sort.Strings(ks)
+	for _, k := range ks {
+		need := "the targeted object is read with the namespace and name given by the user (two fields of the options)"
+		if !strings.HasSuffix(k, "Get(ExtendedDaemonSet)") {
+			need = "the replica set read is the one named by status.canary.replicaSet of the ExtendedDaemonSet read, in the same namespace"
+		}
+		r.Check("C19.R2", k, r.Prog.Pos(out[k].pos), x.fn, need, out[k].ok, out[k].detail)
+	}
+}
+
+// readOnly: the objects read (and every alias through helper parameters/results) are only read.
+func (x *c19Run) readOnly(Gvals, Evals map[ssa.Value]bool) {
+	r, c := x.r, x.c
+	all := map[ssa.Value]bool{}
+	for v := range Gvals {
+		all[v] = true
+	}
+	for v := range Evals {
+		all[v] = true
+	}
+	var vals []ssa.Value
+	for v := range all {
+		vals = append(vals, v)
+	}
+	sort.Slice(vals, func(i, j int) bool { return vals[i].Pos() < vals[j].Pos() })
+	for _, obj := range vals {
+		o := &roOpts{
+			allowCall: func(ci ssa.CallInstruction, _ ssa.Value) bool {
+				if g := x.gets[ci]; g != nil {
+					return true
+				}
+				n := calleeName(ci.Common())
+				return n == pkgClient+".MergeFrom" || strings.HasSuffix(n, ".DeepCopy") && !ci.Common().IsInvoke()
+			},
+			follow:  x.inl,
+			callers: func(f *ssa.Function) []ssa.CallInstruction { return callSitesOf(f, x.reach) },
+			seen:    map[ssa.Value]bool{},
+		}
+		ok, why := readOnlyValue2(obj, o, 0)
+		kind := shortKind(typeName(obj.Type()))
+		r.Check("C19.R2", c.label+": object read ("+kind+") is not modified", r.Prog.Pos(obj.Pos()), shortFunc(obj.Parent()), "the object returned by Get is only read (it is the patch base / the source of the copy), also inside the helpers it is handed to", ok, why)
+	}
+}
+
+func (x *c19Run) patchBase(provs []*c19Prov) {
+	ok, detail := true, "client.MergeFrom(object read)"
+	for _, pv := range provs {
+		args := x.wcall.Call.Args
+		good := false
+		d := "no patch argument"
+		if len(args) >= 3 {
+			cp, pvv := iunwrap(pv.cw, args[2])
+			d = pvv.String()
+			if pc, isC := pvv.(*ssa.Call); isC && calleeName(&pc.Call) == pkgClient+".MergeFrom" && len(pc.Call.Args) == 1 {
+				cb, base := iunwrap(cp, pc.Call.Args[0])
+				good = sameIV(cb, base, pv.cg, pv.G)
+			}
+		}
+		if !good {
+			ok, detail = false, d
+		}
+	}
+	x.r.Check("C19.R2", x.c.label+": patch base", x.r.Prog.Pos(x.w.Call.Pos()), x.fn, "the patch is the merge difference from the object read (only the changed annotations are sent)", ok, detail)
+}
+
+// copyMods walks every use of the copy, following it into the helpers it is handed to.
+func (x *c19Run) copyMods(Ovals map[ssa.Value]bool) *c19Mods {
+	r, c := x.r, x.c
+	m := &c19Mods{}
+	construct := c.label + ": modification of the copy"
+	needTxt := "between DeepCopy and the write the copy is changed only in the documented annotations" + map[bool]string{true: " / by one appended condition", false: ""}[c.cond]
+	bad := func(in ssa.Instruction, what string, more ...string) {
+		m.bad = true
+		detail := what
+		if len(more) > 0 {
+			detail += " " + strings.Join(more, " ")
+		}
+		r.Check("C19.R2", construct+": "+what, r.Prog.Pos(instrPos(in)), shortFunc(in.Parent()), needTxt, false, detail)
+	}
+	isAnn := func(p []string) bool {
+		return len(p) >= 1 && p[len(p)-1] == "Annotations" && (len(p) == 1 || len(p) == 2 && p[0] == "ObjectMeta")
+	}
+	isCond := func(p []string) bool { return c.cond && len(p) == 2 && p[0] == "Status" && p[1] == "Conditions" }
+	seenParam := map[ssa.Value]bool{}
+	argIndex := func(ci ssa.CallInstruction, v ssa.Value) int {
+		for i, a := range ci.Common().Args {
+			if a == v {
+				return i
+			}
+		}
+		return -1
+	}
+	var walk func(v ssa.Value, path []string, depth int)
+	var loaded func(ld ssa.Value, path []string, depth int)
+	loaded = func(ld ssa.Value, path []string, depth int) {
+		switch {
+		case isAnn(path):
+			for _, rr := range refs(ld) {
+				switch y := rr.(type) {
+				case *ssa.DebugRef, *ssa.BinOp, *ssa.Range:
+				case *ssa.Lookup:
+					if y.X != ld {
+						bad(y, "annotation map used as a key")
+					}
+				case *ssa.MapUpdate:
+					if y.Map == ld {
+						m.updates = append(m.updates, y)
+					} else {
+						bad(y, "annotation map stored into another map")
+					}
+				case ssa.CallInstruction:
+					if b, isB := y.Common().Value.(*ssa.Builtin); isB && b.Name() == "len" {
+						continue
+					}
+					if b, isB := y.Common().Value.(*ssa.Builtin); isB && b.Name() == "delete" {
+						k := "?"
+						if s, okc := constString(y.Common().Args[1]); okc {
+							k = s
+						}
+						bad(y, "annotation "+k+" is deleted")
+						continue
+					}
+					if cal := staticCallee(y.Common()); cal != nil && x.inl(cal) && depth < 6 {
+						if j := argIndex(y, ld); j >= 0 && j < len(cal.Params) && !seenParam[cal.Params[j]] {
+							seenParam[cal.Params[j]] = true
+							loaded(cal.Params[j], path, depth+1)
+						}
+						continue
+					}
+					bad(y, "annotation map passed to a call", calleeName(y.Common()))
+				default:
+					bad(rr, "annotation map used in an unexpected way", rr.String())
+				}
+			}
+		case isCond(path):
+			for _, rr := range refs(ld) {
+				if ci, isC := rr.(*ssa.Call); isC {
+					if b, isB := ci.Call.Value.(*ssa.Builtin); isB && (b.Name() == "append" && ci.Call.Args[0] == ld || b.Name() == "len") {
+						continue
+					}
+				}
+				if _, isD := rr.(*ssa.DebugRef); isD {
+					continue
+				}
+				bad(rr, "Status.Conditions of the copy used in an unexpected way", rr.String())
+			}
+		default:
+			if isRefType(ld.Type()) {
+				o := &roOpts{follow: x.inl, seen: map[ssa.Value]bool{}}
+				if ok, why := readOnlyValue2(ld, o, 0); !ok {
+					if in, isIn := ld.(ssa.Instruction); isIn {
+						bad(in, strings.Join(path, ".")+" of the copy: "+why)
+					}
+				}
+			}
+		}
+	}
+	walk = func(v ssa.Value, path []string, depth int) {
+		if depth > 8 {
+			return
+		}
+		for _, rr := range refs(v) {
+			switch y := rr.(type) {
+			case *ssa.DebugRef:
+			case *ssa.FieldAddr:
+				if y.X == v {
+					walk(y, append(append([]string{}, path...), fieldName(y)), depth+1)
+				}
+			case *ssa.UnOp:
+				if y.Op == token.MUL {
+					loaded(y, path, depth)
+				}
+			case *ssa.Store:
+				if y.Addr != v {
+					bad(y, "address of "+strings.Join(path, ".")+" of the copy is stored")
+					continue
+				}
+				switch {
+				case isAnn(path):
+					mm, isMM := y.Val.(*ssa.MakeMap)
+					if !isMM {
+						bad(y, "annotation map replaced by a value that is not a new map", y.Val.String())
+						continue
+					}
+					for _, r2 := range refs(mm) {
+						switch z := r2.(type) {
+						case *ssa.DebugRef, *ssa.Lookup:
+						case *ssa.Store:
+							if z != y {
+								bad(z, "the new annotation map is also stored elsewhere")
+							}
+						case *ssa.MapUpdate:
+							if z.Map == ssa.Value(mm) {
+								m.updates = append(m.updates, z)
+							} else {
+								bad(z, "the new annotation map is stored into another map")
+							}
+						default:
+							bad(r2, "the new annotation map is used in an unexpected way", r2.String())
+						}
+					}
+				case isCond(path):
+					m.condSets = append(m.condSets, y)
+				default:
+					bad(y, "store into "+strings.Join(path, ".")+" of the copy")
+				}
+			case *ssa.MakeInterface:
+				for _, r2 := range refs(y) {
+					if r2 == ssa.Instruction(x.wcall) {
+						continue
+					}
+					if _, isD := r2.(*ssa.DebugRef); isD {
+						continue
+					}
+					bad(r2, "the copy is handed to another call", r2.String())
+				}
+			case *ssa.IndexAddr:
+				bad(y, "element of "+strings.Join(path, ".")+" of the copy addressed")
+			case *ssa.Return:
+				// a helper that builds the copy returns it: its call sites' results are followed
+				for _, cs := range callSitesOf(v.Parent(), x.reach) {
+					if cv, isV := cs.(*ssa.Call); isV && !seenParam[cv] {
+						seenParam[cv] = true
+						idx := -1
+						for i, res := range y.Results {
+							if res == v {
+								idx = i
+							}
+						}
+						if len(y.Results) == 1 {
+							walk(cv, path, depth+1)
+						} else {
+							for _, r3 := range refs(cv) {
+								if ex, isEx := r3.(*ssa.Extract); isEx && ex.Index == idx {
+									walk(ex, path, depth+1)
+								}
+							}
+						}
+					}
+				}
+			case ssa.CallInstruction:
+				if cal := staticCallee(y.Common()); cal != nil && x.inl(cal) && depth < 6 {
+					if j := argIndex(y, v); j >= 0 && j < len(cal.Params) {
+						if !seenParam[cal.Params[j]] {
+							seenParam[cal.Params[j]] = true
+							walk(cal.Params[j], path, depth+1)
+						}
+						continue
+					}
+				}
+				bad(y, "the copy ("+strings.Join(path, ".")+") is passed to a call", calleeName(y.Common()))
+			default:
+				bad(rr, "the copy is used in an unexpected way", rr.String())
+			}
+		}
+	}
+	var os []ssa.Value
+	for o := range Ovals {
+		os = append(os, o)
+	}
+	sort.Slice(os, func(i, j int) bool { return os[i].Pos() < os[j].Pos() })
+	for _, o := range os {
+		walk(o, nil, 0)
+	}
+	if !m.bad {
+		r.Check("C19.R2", construct, r.Prog.Pos(instrPos(x.wcall)), x.fn, needTxt, true, fmt.Sprintf("%d annotation write(s), %d condition store(s)", len(m.updates), len(m.condSets)))
+	}
+	return m
+}
+
+// ---------------------------------------------------------------------------------------------
+// modes
+
+type c19Assume struct {
+	word string
+	mode c19Mode
+	has  bool
+}
+
+// assumptions lists the command words with the mode their constructor binds.
+func (x *c19Run) assumptions() []c19Assume {
+	if len(x.c.tables) <= 1 {
+		for w := range x.c.tables {
+			return []c19Assume{{word: w}}
+		}
+		return []c19Assume{{}}
+	}
+	var ws []string
+	for w := range x.c.tables {
+		ws = append(ws, w)
+	}
+	sort.Strings(ws)
+	var out []c19Assume
+	for _, w := range ws {
+		if b, ok := x.bind[w]; ok {
+			out = append(out, c19Assume{word: w, mode: b, has: true})
+		}
+	}
+	return out
+}
+
+// constTable returns the entries of a package-level map[string-like]string that is only ever
+// assigned one literal with constant entries and is never written otherwise.
+func (x *c19Run) constTable(g *ssa.Global) (map[string]string, bool) {
+	tv, ok := x.constTableV(g)
+	if !ok {
+		return nil, false
+	}
+	out := map[string]string{}
+	for k, v := range tv {
+		s, isC := constString(v)
+		if !isC {
+			return nil, false
+		}
+		out[k] = s
+	}
+	return out, true
+}
+
+// constTableV returns the entries (values as written in the package initialiser) of a
+// package-level map with constant string keys that is assigned one literal and never written
+// otherwise.
+func (x *c19Run) constTableV(g *ssa.Global) (map[string]ssa.Value, bool) {
+	if t, ok := x.tables[g]; ok {
+		return t, t != nil
+	}
+	x.tables[g] = nil
+	var fns []*ssa.Function
+	for _, fn := range x.r.Prog.RepoFuncs() {
+		root := fn
+		for root.Parent() != nil {
+			root = root.Parent()
+		}
+		if root.Pkg == g.Pkg {
+			fns = append(fns, fn)
+		}
+	}
+	if init := g.Pkg.Func("init"); init != nil {
+		fns = append(fns, init)
+	}
+	var lit *ssa.MakeMap
+	nStores := 0
+	for _, fn := range fns {
+		for _, b := range fn.Blocks {
+			for _, in := range b.Instrs {
+				uses := false
+				for _, op := range in.Operands(nil) {
+					if *op == ssa.Value(g) {
+						uses = true
+					}
+				}
+				if !uses {
+					continue
+				}
+				switch y := in.(type) {
+				case *ssa.Store:
+					if y.Addr != ssa.Value(g) {
+						return nil, false
+					}
+					nStores++
+					lit, _ = y.Val.(*ssa.MakeMap)
+				case *ssa.UnOp:
+					if y.Op != token.MUL {
+						return nil, false
+					}
+					for _, rr := range refs(y) {
+						switch z := rr.(type) {
+						case *ssa.Lookup:
+							if z.X != ssa.Value(y) {
+								return nil, false
+							}
+						case *ssa.Range, *ssa.DebugRef:
+						case ssa.CallInstruction:
+							if b, isB := z.Common().Value.(*ssa.Builtin); !isB || b.Name() != "len" {
+								return nil, false
+							}
+						default:
+							return nil, false
+						}
+					}
+				default:
+					return nil, false
+				}
+			}
+		}
+	}
+	if nStores != 1 || lit == nil {
+		return nil, false
+	}
+	t := map[string]ssa.Value{}
+	for _, rr := range refs(lit) {
+		switch y := rr.(type) {
+		case *ssa.MapUpdate:
+			k, ok1 := constString(y.Key)
+			if y.Map != ssa.Value(lit) || !ok1 {
+				return nil, false
+			}
+			t[k] = y.Value
+		case *ssa.Store, *ssa.DebugRef:
+		default:
+			return nil, false
+		}
+	}
+	x.tables[g] = t
+	return t, true
+}
+
+// tableLookup recognises v as tbl[options.<field>] of a constant package-level table.
+func (x *c19Run) tableLookup(c *icall, v ssa.Value) (lk *ssa.Lookup, lc *icall, tbl map[string]string, field string, ok bool) {
+	lk, lc, tv, field, ok := x.tableLookupV(c, v)
+	if !ok {
+		return nil, nil, nil, "", false
+	}
+	tbl = map[string]string{}
+	for k, e := range tv {
+		s, isC := constString(e)
+		if !isC {
+			s = "<struct>"
+		}
+		tbl[k] = s
+	}
+	return lk, lc, tbl, field, true
+}
+
+// tableLookupV recognises v as tbl[options.<field>] of a constant package-level table.
+func (x *c19Run) tableLookupV(c *icall, v ssa.Value) (lk *ssa.Lookup, lc *icall, tbl map[string]ssa.Value, field string, ok bool) {
+	cc, vv := iunwrap(c, v)
+	switch y := vv.(type) {
+	case *ssa.Lookup:
+		lk = y
+	case *ssa.Extract:
+		lk, _ = y.Tuple.(*ssa.Lookup)
+	}
+	if lk == nil {
+		return nil, nil, nil, "", false
+	}
+	_, mv := iunwrap(cc, lk.X)
+	ld, isLd := mv.(*ssa.UnOp)
+	if !isLd || ld.Op != token.MUL {
+		return nil, nil, nil, "", false
+	}
+	g, isG := ld.X.(*ssa.Global)
+	if !isG {
+		return nil, nil, nil, "", false
+	}
+	field = x.recvField(cc, lk.Index)
+	tbl, okT := x.constTableV(g)
+	if field == "" || !okT {
+		return nil, nil, nil, "", false
+	}
+	return lk, cc, tbl, field, true
+}
+
+// consistent reports whether the branches of the path taken before event upto (-1: all) are
+// compatible with the options' mode field holding the assumed constant.
+func (x *c19Run) consistent(p *ipath, upto int, a c19Assume) bool {
+	if !a.has {
+		return true
+	}
+	for _, br := range p.branches {
+		if upto >= 0 && br.at > upto {
+			continue
+		}
+		bc, bv, pol := ibool(br)
+		if f := x.recvField(bc, bv); f == a.mode.field {
+			if fmt.Sprint(pol) != a.mode.val {
+				return false
 			}
 			continue
 		}
-		if x, y, equal, isEq := eqTruth(cond, pol); isEq {
-			for _, pr := range [][2]ssa.Value{{x, y}, {y, x}} {
-				root, pth := accessPath(pr[0])
-				if _, isLd := pr[0].(*ssa.UnOp); !isLd || root != ssa.Value(recv) || len(pth) != 1 {
-					continue
+		if ex, isEx := bv.(*ssa.Extract); isEx && ex.Index == 1 {
+			if _, _, tbl, f, ok := x.tableLookup(bc, ex); ok && f == a.mode.field {
+				if _, present := tbl[a.mode.val]; present != pol {
+					return false
 				}
-				if s, isC := constString(pr[1]); isC && equal {
-					modes[c19Mode{pth[0], s}] = true
-				} else if b, isB := constBool(pr[1]); isB {
-					modes[c19Mode{pth[0], fmt.Sprint(b == equal)}] = true
+				continue
+			}
+		}
+		c, l, rgt, equal, ok := ieq(br)
+		if !ok {
+			continue
+		}
+		for _, pr := range [][2]ssa.Value{{l, rgt}, {rgt, l}} {
+			if x.recvField(c, pr[0]) != a.mode.field {
+				continue
+			}
+			_, cv := iunwrap(c, pr[1])
+			if s, isS := constString(cv); isS {
+				if equal && s != a.mode.val || !equal && s == a.mode.val {
+					return false
+				}
+			} else if b, isB := constBool(cv); isB {
+				if fmt.Sprint(b == equal) != a.mode.val {
+					return false
 				}
 			}
 		}
 	}
-	perField := map[string]int{}
-	for m := range modes {
-		perField[m.field]++
-	}
-	for _, n := range perField {
-		if n > 1 {
-			return modes, false
-		}
-	}
-	return modes, true
+	return true
 }
 
-func c19Refusals(r *Run, c *c19Cmd, run *ssa.Function, E, G, O ssa.Value, wcall *ssa.Call, getCalls []ssa.Value) {
-	fnName := shortFunc(run)
-	recv := run.Params[0]
-	paths, _, ok := funcPaths(run, 20000)
-	r.paths += len(paths)
-	if !ok {
-		r.Undecided("C19.R7", c.label+": refusal table", r.Prog.Pos(run.Pos()), fnName, "path cap exceeded")
+// structField resolves a read of field f of a struct value to the value stored in that field:
+// the struct is a composite literal (possibly returned by an inlined helper, possibly copied into a
+// local), or the entry of a constant package-level table selected by the options' mode field.
+func (x *c19Run) structField(c *icall, v ssa.Value, a c19Assume, depth int) (*icall, ssa.Value, bool) {
+	if depth > 6 {
+		return nil, nil, false
+	}
+	cc, vv := iunwrap(c, v)
+	var base ssa.Value
+	f := ""
+	switch y := vv.(type) {
+	case *ssa.Field:
+		base, f = y.X, fieldName(y)
+	case *ssa.UnOp:
+		fa, ok := y.X.(*ssa.FieldAddr)
+		if y.Op != token.MUL || !ok {
+			return nil, nil, false
+		}
+		f = fieldName(fa)
+		ac, av := iunwrap(cc, fa.X)
+		al, isAl := av.(*ssa.Alloc)
+		if !isAl {
+			return nil, nil, false
+		}
+		if fs := fieldStores(al, f); len(fs) == 1 {
+			return ac, fs[0], true
+		} else if len(fs) > 1 {
+			return nil, nil, false
+		}
+		var whole []ssa.Value
+		for _, rr := range refs(al) {
+			if st, isSt := rr.(*ssa.Store); isSt && st.Addr == ssa.Value(al) {
+				whole = append(whole, st.Val)
+			}
+		}
+		if len(whole) != 1 {
+			return nil, nil, false
+		}
+		cc, base = ac, whole[0]
+	default:
+		return nil, nil, false
+	}
+	bc, bv := iunwrap(cc, base)
+	// entry of a constant table
+	if a.has {
+		if _, _, tbl, field, ok := x.tableLookupV(bc, bv); ok && field == a.mode.field {
+			if ev, present := tbl[a.mode.val]; present {
+				bc, bv = &icall{fn: ev.Parent(), sub: map[*ssa.Call]*icall{}}, ev
+			}
+		}
+	}
+	if ld, isLd := bv.(*ssa.UnOp); isLd && ld.Op == token.MUL {
+		if al, isAl := ld.X.(*ssa.Alloc); isAl {
+			if fs := fieldStores(al, f); len(fs) == 1 {
+				return bc, fs[0], true
+			}
+		}
+	}
+	return nil, nil, false
+}
+
+// valueOf classifies a written / compared annotation value under a mode assumption.
+func (x *c19Run) valueOf(pv *c19Prov, c *icall, v ssa.Value, a c19Assume) string {
+	cc, vv := iunwrap(c, v)
+	if s, ok := constString(vv); ok {
+		return s
+	}
+	for i := 0; i < 6; i++ {
+		fc, fv, ok := ifield(cc, vv)
+		if !ok {
+			fc, fv, ok = x.structField(cc, vv, a, 0)
+		}
+		if !ok {
+			break
+		}
+		cc, vv = iunwrap(fc, fv)
+		if s, isC := constString(vv); isC {
+			return s
+		}
+	}
+	rc, root, f := iaccess(cc, vv)
+	if (sameIV(rc, root, pv.cg, pv.G) || sameIV(rc, root, pv.co, pv.O) || pv.hasE && sameIV(rc, root, pv.ce, pv.E)) && len(f) == 3 && f[0] == "Status" && f[1] == "Canary" && f[2] == "ReplicaSet" {
+		return c19CanaryRS
+	}
+	if a.has {
+		if _, _, tbl, field, ok := x.tableLookup(cc, vv); ok && field == a.mode.field {
+			if s, present := tbl[a.mode.val]; present {
+				return s
+			}
+		}
+	}
+	return "<" + strings.TrimSpace(pathString(vv)) + ">"
+}
+
+func c19Short(key string) string { return key[strings.LastIndex(key, "/")+1:] }
+
+// annotationTables: on every path to the write and for every command word whose mode is
+// compatible with the path, the annotation writes are exactly the word's documented table.
+func (x *c19Run) annotationTables(provs []*c19Prov, mods *c19Mods) {
+	r, c := x.r, x.c
+	isUpd := map[ssa.Instruction]bool{}
+	for _, u := range mods.updates {
+		isUpd[u] = true
+	}
+	as := x.assumptions()
+	if len(c.tables) > 1 && (x.bindEr != "" || len(as) != len(c.tables)) {
+		why := x.bindEr
+		if why == "" {
+			why = "not every command word is bound to a constant mode by a cobra constructor"
+		}
+		r.Undecided("C19.R2", c.label+": command word binding", r.Prog.Pos(x.run.Pos()), x.fn, why)
 		return
 	}
-	bind, _ := c19Bindings(r, c)
-	isE := func(v ssa.Value) bool { return v == E || v == O && G == E }
-	statP := loadOfPath(isE, "Status", "Canary")
-	specP := loadOfPath(isE, "Spec", "Strategy", "Canary")
-	// annotation value of a documented key: (key, true) for the value of a look-up on the copy's or
-	// the read object's annotations
-	annValue := func(v ssa.Value) (string, bool) {
-		var lk *ssa.Lookup
-		switch x := v.(type) {
-		case *ssa.Lookup:
-			if !x.CommaOk {
-				lk = x
-			}
-		case *ssa.Extract:
-			if l, isL := x.Tuple.(*ssa.Lookup); isL && x.Index == 0 {
-				lk = l
-			}
-		}
-		if lk == nil {
-			return "", false
-		}
-		root, pth := accessPath(lk.X)
-		if (root != O && root != G) || len(pth) == 0 || pth[len(pth)-1] != "Annotations" {
-			return "", false
-		}
-		key, isC := constString(lk.Index)
-		return key, isC
+	type agg struct {
+		ok     bool
+		detail string
+		need   string
+		pos    token.Pos
+		triv   bool
 	}
-	sameValue := func(v ssa.Value, want string) bool {
-		if want == c19CanaryRS {
-			root, pth := accessPath(v)
-			return (root == G || root == O) && len(pth) == 3 && pth[0] == "Status" && pth[1] == "Canary" && pth[2] == "ReplicaSet"
+	res := map[string]*agg{}
+	var order []string
+	written := map[string]bool{}
+	for _, pv := range provs {
+		for _, a := range as {
+			if !x.consistent(pv.p, pv.wi, a) {
+				continue
+			}
+			delta := map[string]string{}
+			var lastU ssa.Instruction
+			for i := 0; i < pv.wi; i++ {
+				ev := pv.p.events[i]
+				u, isU := ev.in.(*ssa.MapUpdate)
+				if !isU || !isUpd[ev.in] {
+					continue
+				}
+				// the map written must be the copy's on this path
+				rc, root, f := iaccess(ev.c, u.Map)
+				if _, isMM := root.(*ssa.MakeMap); !isMM && !(sameIV(rc, root, pv.co, pv.O) && len(f) > 0 && f[len(f)-1] == "Annotations") {
+					continue
+				}
+				lastU = ev.in
+				key, isC := iconstString(ev.c, u.Key)
+				if !isC {
+					key = "<dynamic key>"
+				}
+				delta[key] = x.valueOf(pv, ev.c, u.Value, a)
+			}
+			mode := ""
+			if a.has {
+				mode = a.mode.field + "=" + a.mode.val
+			}
+			construct := c.label + ": annotations written for `" + a.word + "` [" + mode + "] " + c19TableString(delta)
+			ag := res[construct]
+			if ag == nil {
+				ag = &agg{ok: true, pos: x.wcall.Pos()}
+				if lastU != nil {
+					ag.pos = instrPos(lastU)
+				}
+				res[construct] = ag
+				order = append(order, construct)
+			}
+			want := c.tables[a.word]
+			ag.need = "the annotations written when the command is `" + a.word + "` are exactly its documented table " + c19TableString(want)
+			switch {
+			case len(delta) == 0:
+				ag.need = "a path that writes no annotation changes nothing"
+				ag.triv = true
+			case c19SameTable(want, delta):
+				written[a.word] = true
+				ag.detail = "table of `" + a.word + "`"
+				if a.has {
+					ag.detail += ", the mode its constructor sets (" + mode + ") is compatible with the path"
+				}
+			default:
+				ag.ok = false
+				ag.detail = "writes " + c19TableString(delta) + " when the options hold the mode of `" + a.word + "`"
+			}
 		}
-		s, isC := constString(v)
-		return isC && s == want
 	}
+	sort.Strings(order)
+	anyBad := false
+	for _, cst := range order {
+		a := res[cst]
+		o := r.Check("C19.R2", cst, r.Prog.Pos(a.pos), x.fn, a.need, a.ok, a.detail)
+		o.Trivial = a.triv
+		if !a.ok {
+			anyBad = true
+		}
+	}
+	if anyBad {
+		return
+	}
+	var ws []string
+	for w := range c.tables {
+		ws = append(ws, w)
+	}
+	sort.Strings(ws)
+	for _, w := range ws {
+		r.Check("C19.R2", c.label+": table of `"+w+"` is written", r.Prog.Pos(x.wcall.Pos()), x.fn, "the command word `"+w+"` has a path that writes "+c19TableString(c.tables[w]), written[w], "")
+	}
+}
+
+// conditionAppend: fail appends exactly one condition {type Canary-Failed, status True} on every
+// path to the write.
+func (x *c19Run) conditionAppend(provs []*c19Prov, mods *c19Mods) *c19CondWrite {
+	r, c := x.r, x.c
+	pos := r.Prog.Pos(x.wcall.Pos())
+	construct := c.label + ": appended condition"
+	if len(mods.updates) > 0 {
+		r.Check("C19.R2", c.label+": no annotation write", r.Prog.Pos(instrPos(mods.updates[0])), x.fn, "fail changes only the replica set's conditions", false, "annotation written on the replica set copy")
+	}
+	isSet := map[ssa.Instruction]*ssa.Store{}
+	for _, st := range mods.condSets {
+		isSet[st] = st
+	}
+	wantT, _ := r.Prog.constStr(pkgAPI, "ConditionTypeCanaryFailed")
+	wantS, _ := r.Prog.constStr(pkgCoreV1, "ConditionTrue")
+	var out *c19CondWrite
+	okAll, detail := true, ""
+	var at ssa.Instruction = x.wcall
+	for _, pv := range provs {
+		var sets []ievent
+		for i := 0; i < pv.wi; i++ {
+			if isSet[pv.p.events[i].in] != nil {
+				sets = append(sets, pv.p.events[i])
+			}
+		}
+		if len(sets) != 1 {
+			okAll, detail = false, fmt.Sprintf("%d stores to Status.Conditions of the copy on a path to the write", len(sets))
+			continue
+		}
+		ev := sets[0]
+		st := ev.in.(*ssa.Store)
+		at = st
+		ac, av := iresolve(ev.c, st.Val)
+		ap, isAp := av.(*ssa.Call)
+		okShape := false
+		var elems []ssa.Value
+		if isAp {
+			if b, isB := ap.Call.Value.(*ssa.Builtin); isB && b.Name() == "append" && len(ap.Call.Args) == 2 {
+				rc, base, bp := iaccess(ac, ap.Call.Args[0])
+				var complete bool
+				elems, complete = varargElems(ap.Call.Args[1])
+				okShape = sameIV(rc, base, pv.co, pv.O) && len(bp) == 2 && bp[0] == "Status" && bp[1] == "Conditions" && complete && len(elems) == 1
+			}
+		}
+		if !okShape {
+			okAll, detail = false, "Status.Conditions of the copy is not append(its own conditions, one condition)"
+			continue
+		}
+		typV, statV, why := c19CondFields(r, elems[0], 0)
+		if why != "" {
+			okAll, detail = false, "undecided: "+why
+			continue
+		}
+		gotT, okT := constString(typV)
+		gotS, okS := c19StatusConst(r, statV)
+		if !(okT && okS && gotT == wantT && gotS == wantS) {
+			okAll = false
+		}
+		detail = fmt.Sprintf("type=%q (const=%v) status=%q (decided=%v)", gotT, okT, gotS, okS)
+		if okT && okS {
+			out = &c19CondWrite{typ: gotT, status: gotS}
+		}
+	}
+	_ = pos
+	r.Check("C19.R2", construct, r.Prog.Pos(instrPos(at)), x.fn, fmt.Sprintf("on every path to the write exactly one condition is appended to the copy's own conditions, of type %q and status %q", wantT, wantS), okAll, detail)
+	return out
+}
+
+// c19CondFields resolves the Type and Status of a condition value: a local composite literal, or
+// the result of (possibly nested) repository constructors that store their parameters in those
+// fields. The values returned are expressed in the context of the outermost call.
+func c19CondFields(r *Run, el ssa.Value, depth int) (typ, status ssa.Value, why string) {
+	fromAlloc := func(a ssa.Value) (t, s ssa.Value) {
+		ts, ss := fieldStores(a, "Type"), fieldStores(a, "Status")
+		if len(ts) == 1 && len(ss) == 1 {
+			return ts[0], ss[0]
+		}
+		return nil, nil
+	}
+	if depth > 4 {
+		return nil, nil, "condition constructors nested too deeply"
+	}
+	switch y := el.(type) {
+	case *ssa.UnOp:
+		if y.Op == token.MUL {
+			if t, s := fromAlloc(y.X); t != nil {
+				return t, s, ""
+			}
+		}
+	case *ssa.Call:
+		cal := staticCallee(&y.Call)
+		if cal == nil || !r.Prog.IsRuleSite(cal) {
+			return nil, nil, "the appended condition is built by a function outside the repository"
+		}
+		var t, s ssa.Value
+		n := 0
+		for _, b := range cal.Blocks {
+			ret := returnOf(b)
+			if ret == nil {
+				continue
+			}
+			n++
+			var w string
+			t, s, w = c19CondFields(r, ret.Results[0], depth+1)
+			if w != "" {
+				return nil, nil, w
+			}
+		}
+		if n != 1 || t == nil {
+			return nil, nil, "condition constructor does not have a single return of a composite literal / constructor call"
+		}
+		subst := func(v ssa.Value) ssa.Value {
+			if p, ok := v.(*ssa.Parameter); ok && p.Parent() == cal {
+				return y.Call.Args[paramIndex(p)]
+			}
+			return v
+		}
+		return subst(t), subst(s), ""
+	}
+	return nil, nil, "the appended condition is not a composite literal or a constructor call: " + el.String()
+}
+
+// refusals: R7 on every path of run (helpers expanded) that returns an error without writing.
+func (x *c19Run) refusals(provs []*c19Prov) {
+	r, c := x.r, x.c
+	// the objects of the command, taken from any path to the write (they are the same static values)
+	ref := provs[0]
+	as := x.assumptions()
 	type agg struct {
 		ok     bool
 		pos    token.Pos
@@ -1349,109 +1896,182 @@ func c19Refusals(r *Run, c *c19Cmd, run *ssa.Function, E, G, O ssa.Value, wcall 
 	}
 	res := map[string]*agg{}
 	var order []string
-	for _, p := range paths {
-		ret := returnOf(p.Blocks[len(p.Blocks)-1])
-		if ret == nil || len(ret.Results) == 0 || isNilConst(unwrap(p.Resolve(ret.Results[len(ret.Results)-1]))) || p.Contains(wcall.Block()) {
+	for _, p := range x.paths {
+		if p.eventIndex(x.wcall) >= 0 || p.ret == nil || len(p.ret.Results) == 0 {
 			continue
 		}
-		modes, feasible := c19PathModes(p, recv)
-		if !feasible {
+		if iisNil(p.root, p.ret.Results[len(p.ret.Results)-1]) {
 			continue
 		}
-		// the table of the requested state on this path
-		var want map[string]string
-		word := ""
-		if len(c.tables) == 1 {
-			for w, t := range c.tables {
-				word, want = w, t
-			}
-		} else {
-			for w, t := range c.tables {
-				if b, has := bind[w]; has && modes[b] {
-					word, want = w, t
-				}
-			}
-		}
-		var reasons, atoms []string
-		for _, br := range pathBranches(p) {
-			x, y, equal, isEq := eqTruth(br.Cond, br.Pol)
-			if !isEq {
+		// objects on this path
+		pv := &c19Prov{p: p, wi: -1}
+		for _, ev := range p.events {
+			g := x.gets[ev.in]
+			if g == nil {
 				continue
 			}
-			if isNilConst(x) || isNilConst(y) {
-				v := x
-				if isNilConst(x) {
-					v = y
-				}
-				for _, g := range getCalls {
-					if v == g {
-						if !equal {
-							reasons = append(reasons, "Get failed")
-						} else {
-							atoms = append(atoms, "get=ok")
+			co, obj := iunwrap(ev.c, g.Obj)
+			if shortKind(g.Kind) == "ExtendedDaemonSet" {
+				pv.ce, pv.E, pv.hasE = co, obj, true
+			}
+			if obj == ref.G {
+				pv.cg, pv.G = co, obj
+			}
+		}
+		for _, ev := range p.events {
+			if ev.in == ssa.Instruction(ref.O.(ssa.Instruction)) {
+				pv.co, pv.O = ev.c, ref.O
+			}
+		}
+		isObj := func(rc *icall, root ssa.Value) bool {
+			return pv.hasE && sameIV(rc, root, pv.ce, pv.E) || pv.G != nil && sameIV(rc, root, pv.cg, pv.G) || pv.O != nil && sameIV(rc, root, pv.co, pv.O)
+		}
+		var generic, atoms []string
+		type annEq struct {
+			c     *icall
+			key   string
+			other ssa.Value
+		}
+		var eqs []annEq
+		for _, br := range p.branches {
+			bc, l, rgt, equal, ok := ieq(br)
+			if !ok {
+				cc, bv, pol := ibool(br)
+				if ex, isEx := bv.(*ssa.Extract); isEx && ex.Index == 1 {
+					if lk, isL := ex.Tuple.(*ssa.Lookup); isL {
+						if key, isC := iconstString(cc, lk.Index); isC {
+							atoms = append(atoms, fmt.Sprintf("%s present:%v", c19Short(key), pol))
 						}
 					}
 				}
+				continue
+			}
+			if iisNil(bc, l) || iisNil(bc, rgt) {
+				v := l
+				if iisNil(bc, l) {
+					v = rgt
+				}
+				cv, vv := iunwrap(bc, v)
+				if call, isCall := vv.(*ssa.Call); isCall && x.gets[call] != nil {
+					if !equal {
+						generic = append(generic, "Get failed")
+					} else {
+						atoms = append(atoms, "get=ok")
+					}
+					continue
+				}
+				rc, root, f := iaccess(cv, vv)
 				switch {
-				case statP(v):
+				case isObj(rc, root) && len(f) == 2 && f[0] == "Status" && f[1] == "Canary":
 					if equal {
-						reasons = append(reasons, "status.canary == nil")
+						generic = append(generic, "status.canary == nil")
 					} else {
 						atoms = append(atoms, "status.canary=set")
 					}
-				case specP(v):
+				case isObj(rc, root) && len(f) == 3 && f[0] == "Spec" && f[1] == "Strategy" && f[2] == "Canary":
 					if equal && c.specCanary {
-						reasons = append(reasons, "spec.strategy.canary == nil")
+						generic = append(generic, "spec.strategy.canary == nil")
 					} else {
 						atoms = append(atoms, fmt.Sprintf("spec.canary==nil:%v", equal))
 					}
-				default:
-					if root, pth := accessPath(v); (root == O || root == G) && len(pth) > 0 && pth[len(pth)-1] == "Annotations" {
-						atoms = append(atoms, fmt.Sprintf("annotations==nil:%v", equal))
-					}
+				case isObj(rc, root) && len(f) > 0 && f[len(f)-1] == "Annotations":
+					atoms = append(atoms, fmt.Sprintf("annotations==nil:%v", equal))
 				}
 				continue
 			}
-			for _, pr := range [][2]ssa.Value{{x, y}, {y, x}} {
-				key, isAnn := annValue(pr[0])
-				if !isAnn {
+			for _, pr := range [][2]ssa.Value{{l, rgt}, {rgt, l}} {
+				cc, vv := iunwrap(bc, pr[0])
+				var lk *ssa.Lookup
+				switch y := vv.(type) {
+				case *ssa.Lookup:
+					if !y.CommaOk {
+						lk = y
+					}
+				case *ssa.Extract:
+					if l2, isL := y.Tuple.(*ssa.Lookup); isL && y.Index == 0 {
+						lk = l2
+					}
+				}
+				if lk == nil {
 					continue
 				}
-				short := key[strings.LastIndex(key, "/")+1:]
-				val := "<name>"
-				if s, isC := constString(pr[1]); isC {
-					val = s
+				rc, root, f := iaccess(cc, lk.X)
+				key, isC := iconstString(cc, lk.Index)
+				if !isObj(rc, root) || len(f) == 0 || f[len(f)-1] != "Annotations" || !isC {
+					continue
 				}
-				if equal && want != nil && want[key] != "" && sameValue(pr[1], want[key]) {
-					reasons = append(reasons, fmt.Sprintf("annotation %s already %s", short, val))
+				if equal {
+					eqs = append(eqs, annEq{bc, key, pr[1]})
 				} else {
-					atoms = append(atoms, fmt.Sprintf("%s==%s:%v", short, val, equal))
+					val := "<name>"
+					if s, isS := iconstString(bc, pr[1]); isS {
+						val = s
+					}
+					atoms = append(atoms, fmt.Sprintf("%s==%s:false", c19Short(key), val))
 				}
 			}
 		}
-		// presence flags
-		for _, br := range pathBranches(p) {
-			cond, pol := stripNot(br.Cond, br.Pol)
-			if ex, isEx := cond.(*ssa.Extract); isEx && ex.Index == 1 {
-				if lk, isL := ex.Tuple.(*ssa.Lookup); isL {
-					if key, isC := constString(lk.Index); isC {
-						atoms = append(atoms, fmt.Sprintf("%s present:%v", key[strings.LastIndex(key, "/")+1:], pol))
+		// annotation reasons, per command word compatible with the path
+		good := len(generic) > 0
+		reasons := append([]string{}, generic...)
+		words := ""
+		if !good {
+			good = true
+			n := 0
+			for _, a := range as {
+				if !x.consistent(p, -1, a) {
+					continue
+				}
+				n++
+				words += a.word + " "
+				want := c.tables[a.word]
+				found := false
+				for _, e := range eqs {
+					if want != nil && want[e.key] != "" && pv.G != nil && x.valueOf(&c19Prov{cg: pv.cg, G: pv.G, co: pv.co, O: pv.O, ce: pv.ce, E: pv.E, hasE: pv.hasE}, e.c, e.other, a) == want[e.key] {
+						found = true
+						val := want[e.key]
+						if val == c19CanaryRS {
+							val = "<name>"
+						}
+						reasons = append(reasons, fmt.Sprintf("annotation %s already %s", c19Short(e.key), val))
 					}
 				}
+				if !found {
+					good = false
+				}
+			}
+			if n == 0 {
+				good = false
+			}
+			for _, e := range eqs {
+				val := "<name>"
+				if s, isS := iconstString(e.c, e.other); isS {
+					val = s
+				}
+				atoms = append(atoms, fmt.Sprintf("%s==%s:true", c19Short(e.key), val))
 			}
 		}
 		sort.Strings(reasons)
 		sort.Strings(atoms)
-		reasons = c19Uniq(reasons)
-		atoms = c19Uniq(atoms)
+		reasons, atoms = c19Uniq(reasons), c19Uniq(atoms)
 		construct := c.label + ": refusal [" + strings.Join(reasons, "; ") + "]"
-		if len(reasons) == 0 {
-			construct = c.label + ": refusal without a documented reason [" + word + " " + strings.Join(atoms, " ") + "]"
+		if !good {
+			construct = c.label + ": refusal without a documented reason [" + strings.TrimSpace(words) + " " + strings.Join(atoms, " ") + "]"
 		}
 		a := res[construct]
 		if a == nil {
-			a = &agg{ok: len(reasons) > 0, pos: instrPos(ret)}
-			if !a.ok {
+			a = &agg{ok: good, pos: instrPos(p.events[len(p.events)-1].in)}
+			// position of the innermost return that produced the error
+			for i := len(p.events) - 1; i >= 0; i-- {
+				if rt, isR := p.events[i].in.(*ssa.Return); isR && len(rt.Results) > 0 {
+					if _, vv := iunwrap(p.events[i].c, rt.Results[len(rt.Results)-1]); !isNilConst(vv) {
+						if _, isCall := vv.(*ssa.Call); isCall {
+							a.pos = instrPos(rt)
+						}
+					}
+				}
+			}
+			if !good {
 				a.detail = "the command returns an error here although the object was read, the canary precondition holds and no documented annotation already has the requested value; facts: " + strings.Join(atoms, " ")
 			}
 			res[construct] = a
@@ -1461,17 +2081,201 @@ func c19Refusals(r *Run, c *c19Cmd, run *ssa.Function, E, G, O ssa.Value, wcall 
 	sort.Strings(order)
 	for _, cst := range order {
 		a := res[cst]
-		r.Check("C19.R7", cst, r.Prog.Pos(a.pos), fnName,
+		r.Check("C19.R7", cst, r.Prog.Pos(a.pos), x.fn,
 			"an error return before the write has a documented reason: Get failed, the canary precondition is missing, or the annotation is present with the value that already expresses the requested state (never the mere absence of the annotation)", a.ok, a.detail)
 	}
 }
 
-func c19Uniq(in []string) []string {
-	var out []string
-	for i, x := range in {
-		if i == 0 || x != in[i-1] {
-			out = append(out, x)
+// ---------------------------------------------------------------------------------------------
+// bindings: command word -> mode constant
+
+type c19Sym struct {
+	param int // >= 0: parameter index of the enclosing function
+	s     string
+	ok    bool
+}
+
+func c19SymOf(v ssa.Value, word bool) c19Sym {
+	if s, ok := constString(v); ok {
+		if word {
+			s = firstWord(s)
+		}
+		return c19Sym{param: -1, s: s, ok: true}
+	}
+	if b, ok := constBool(v); ok && !word {
+		return c19Sym{param: -1, s: fmt.Sprint(b), ok: true}
+	}
+	if p, ok := unwrap(v).(*ssa.Parameter); ok {
+		return c19Sym{param: paramIndex(p), ok: true}
+	}
+	if word {
+		// name + " [args]": the word is the left operand when the right one starts with a blank
+		if bo, ok := v.(*ssa.BinOp); ok && bo.Op == token.ADD {
+			l := c19SymOf(bo.X, true)
+			if l.ok && l.param < 0 && strings.ContainsAny(l.s, " \t") {
+				return l
+			}
+			if r, isC := constString(bo.Y); isC && l.ok && (strings.HasPrefix(r, " ") || l.param < 0) {
+				if l.param < 0 {
+					l.s = firstWord(l.s + r)
+				}
+				return l
+			}
 		}
 	}
-	return out
+	return c19Sym{}
+}
+
+// c19Bindings maps the command word (first word of cobra.Command.Use) to the mode constant the
+// options are built with; word and mode may come through parameters of command-building helpers.
+func c19Bindings(r *Run, c *c19Cmd) (map[string]c19Mode, string) {
+	out := map[string]c19Mode{}
+	named := r.Prog.Named(c.pkg, c.typ)
+	if named == nil {
+		return out, "options type not found"
+	}
+	isOpt := func(t types.Type) bool {
+		p, ok := t.(*types.Pointer)
+		return ok && types.Identical(p.Elem(), named)
+	}
+	var pkgFns []*ssa.Function
+	inPkg := map[*ssa.Function]bool{}
+	for _, fn := range r.Prog.RepoFuncs() {
+		root := fn
+		for root.Parent() != nil {
+			root = root.Parent()
+		}
+		if root.Pkg != nil && root.Pkg.Pkg.Path() == c.pkg {
+			pkgFns = append(pkgFns, fn)
+			inPkg[fn] = true
+		}
+	}
+	// constructors: functions returning *options that store a basic-typed parameter into a field
+	ctors := map[*ssa.Function]map[int]string{}
+	modeFields := map[string]bool{}
+	for _, fn := range pkgFns {
+		res := fn.Signature.Results()
+		if res.Len() != 1 || !isOpt(res.At(0).Type()) {
+			continue
+		}
+		fields := map[int]string{}
+		for _, b := range fn.Blocks {
+			for _, in := range b.Instrs {
+				st, ok := in.(*ssa.Store)
+				if !ok {
+					continue
+				}
+				fa, ok := st.Addr.(*ssa.FieldAddr)
+				par, isPar := st.Val.(*ssa.Parameter)
+				if !ok || !isPar || !isOpt(fa.X.Type()) {
+					continue
+				}
+				if _, basic := par.Type().Underlying().(*types.Basic); basic {
+					fields[paramIndex(par)] = fieldName(fa)
+					modeFields[fieldName(fa)] = true
+				}
+			}
+		}
+		if len(fields) > 0 {
+			ctors[fn] = fields
+		}
+	}
+	useSym := func(fn *ssa.Function) c19Sym {
+		var sym c19Sym
+		for _, b := range fn.Blocks {
+			for _, in := range b.Instrs {
+				if st, ok := in.(*ssa.Store); ok {
+					if fa, isFA := st.Addr.(*ssa.FieldAddr); isFA && fieldName(fa) == "Use" && typeName(fa.X.Type()) == "github.com/spf13/cobra.Command" {
+						sym = c19SymOf(st.Val, true)
+					}
+				}
+			}
+		}
+		return sym
+	}
+	var bind func(fn *ssa.Function, word c19Sym, field string, val c19Sym, depth int)
+	bind = func(fn *ssa.Function, word c19Sym, field string, val c19Sym, depth int) {
+		if !word.ok || !val.ok {
+			return
+		}
+		if word.param < 0 && val.param < 0 {
+			out[word.s] = c19Mode{field, val.s}
+			return
+		}
+		if depth > 3 {
+			return
+		}
+		for _, cs := range callSitesOf(fn, inPkg) {
+			args := cs.Common().Args
+			w2, v2 := word, val
+			if word.param >= 0 {
+				if word.param >= len(args) {
+					continue
+				}
+				w2 = c19SymOf(args[word.param], true)
+			}
+			if val.param >= 0 {
+				if val.param >= len(args) {
+					continue
+				}
+				v2 = c19SymOf(args[val.param], false)
+			}
+			bind(cs.Parent(), w2, field, v2, depth+1)
+		}
+	}
+	useFns := map[*ssa.Function]bool{}
+	for _, fn := range pkgFns {
+		word := useSym(fn)
+		if !word.ok {
+			continue
+		}
+		useFns[fn] = true
+		// options built inline next to the cobra command
+		for _, b := range fn.Blocks {
+			for _, in := range b.Instrs {
+				st, ok := in.(*ssa.Store)
+				if !ok {
+					continue
+				}
+				fa, isFA := st.Addr.(*ssa.FieldAddr)
+				if !isFA || !isOpt(fa.X.Type()) {
+					continue
+				}
+				if _, basic := st.Val.Type().Underlying().(*types.Basic); !basic {
+					continue
+				}
+				if v := c19SymOf(st.Val, false); v.ok {
+					modeFields[fieldName(fa)] = true
+					bind(fn, word, fieldName(fa), v, 0)
+				}
+			}
+		}
+		for _, ci := range callsIn(fn) {
+			fields := ctors[staticCallee(ci.Common())]
+			for idx, f := range fields {
+				bind(fn, word, f, c19SymOf(ci.Common().Args[idx], false), 0)
+			}
+		}
+	}
+	// the mode fields are written nowhere else
+	for _, fn := range pkgFns {
+		if ctors[fn] != nil || useFns[fn] {
+			continue
+		}
+		for _, b := range fn.Blocks {
+			for _, in := range b.Instrs {
+				if st, ok := in.(*ssa.Store); ok {
+					if fa, isFA := st.Addr.(*ssa.FieldAddr); isFA && isOpt(fa.X.Type()) && modeFields[fieldName(fa)] {
+						// a field that never served as a mode of a bound word is irrelevant
+						for _, m := range out {
+							if m.field == fieldName(fa) {
+								return out, "mode field " + fieldName(fa) + " is also written in " + shortFunc(fn)
+							}
+						}
+					}
+				}
+			}
+		}
+	}
+	return out, ""
 }
